@@ -1,1692 +1,7 @@
-(** * Total: preservation of the invariant for ARBITRARY arguments (C17).
-
-    The specification theorems of [FindOrAdd], [Ite], [Quantify], [Cofactor],
-    [Subst], [GC] assume valid arguments.  Here: whatever the arguments (junk
-    integers, undeclared names, unknown operators) and whatever the outcome
-    ([Ok] or [Err], the state of an [Err] being the state at the raise point)
-    every public operation keeps the manager canonical, keeps every old
-    reference and the variable order, and keeps the reference counts exact.
-    Dynamic reordering is disabled ([last_len s = None]). *)
-From DD Require Export GC Quantify Cofactor Subst.
-
-(** ** 1. Without dynamic reordering nothing raises [_NeedsReordering]
-    (a syntactic property of the code, independent of the invariant) *)
-Definition nrf {A} (m : MS A) : Prop :=
-  ∀ s r s', last_len s = None → m s = (r, s') →
-    last_len s' = None ∧ r ≠ Err ENeedsReordering.
-
-Lemma nrf_ret {A} (a : A) : nrf (ret a).
-Proof. by intros s r s' Hl [= <- <-]. Qed.
-Lemma nrf_raise {A} e : e ≠ ENeedsReordering → nrf (raise (A:=A) e).
-Proof. intros He s r s' Hl [= <- <-]. split; [done|congruence]. Qed.
-Lemma nrf_get : nrf (get (S:=st)).
-Proof. by intros s r s' Hl [= <- <-]. Qed.
-Lemma nrf_modify f : (∀ s, last_len (f s) = last_len s) → nrf (modify f).
-Proof. intros Hf s r s' Hl [= <- <-]. by rewrite Hf. Qed.
-Lemma nrf_bind {A B} (m : MS A) (f : A → MS B) :
-  nrf m → (∀ a, nrf (f a)) → nrf (bind m f).
-Proof.
-  intros Hm Hf s r s' Hl. unfold bind. destruct (m s) as [[a|e] s1] eqn:E.
-  - destruct (Hm _ _ _ Hl E) as [Hl1 _]. by apply Hf.
-  - destruct (Hm _ _ _ Hl E) as [Hl1 Hr]. intros [= <- <-]. split; [done|]. intros [= ->]. by apply Hr.
-Qed.
-Lemma nrf_assert b : nrf (assert (S:=st) b).
-Proof. destruct b; [apply nrf_ret|by apply nrf_raise]. Qed.
-Lemma nrf_ensure e b : e ≠ ENeedsReordering → nrf (ensure (S:=st) e b).
-Proof. intros. destruct b; [apply nrf_ret|by apply nrf_raise]. Qed.
-Lemma nrf_of_opt {A} e (o : option A) : e ≠ ENeedsReordering → nrf (of_opt (S:=st) e o).
-Proof. intros. destruct o; [apply nrf_ret|by apply nrf_raise]. Qed.
-Lemma nrf_getsucc n : nrf (getsucc n).
-Proof. intros s r s' Hl. unfold getsucc. destruct (succ s !! n); by intros [= <- <-]. Qed.
-Lemma nrf_getref n : nrf (getref n).
-Proof. intros s r s' Hl. unfold getref. destruct (refc s !! n); by intros [= <- <-]. Qed.
-Lemma nrf_getsuccZ u : nrf (getsuccZ u).
-Proof. unfold getsuccZ. case_decide; [by apply nrf_raise|apply nrf_getsucc]. Qed.
-Lemma nrf_forM {A} (l : list A) (f : A → MS unit) : (∀ a, nrf (f a)) → nrf (forM l f).
-Proof.
-  intros Hf. induction l as [|a l IH]; cbn [forM]; [apply nrf_ret|].
-  apply nrf_bind; [apply Hf|done].
-Qed.
-Lemma nrf_mapM {A B} (f : A → MS B) (l : list A) : (∀ a, nrf (f a)) → nrf (mapM f l).
-Proof.
-  intros Hf. induction l as [|a l IH]; cbn [mapM]; [apply nrf_ret|].
-  apply nrf_bind; [apply Hf|intros b]. apply nrf_bind; [done|intros bs; apply nrf_ret].
-Qed.
-Lemma nrf_foldM {A B} (f : B → A → MS B) (l : list A) :
-  (∀ b a, nrf (f b a)) → ∀ b, nrf (foldM f b l).
-Proof.
-  intros Hf. induction l as [|a l IH]; intros b; cbn [foldM]; [apply nrf_ret|].
-  apply nrf_bind; [apply Hf|done].
-Qed.
-Lemma nrf_request_reordering : nrf request_reordering.
-Proof. intros s r s' Hl. unfold request_reordering. rewrite Hl. by intros [= <- <-]. Qed.
-
-(** one syntactic step *)
-Ltac nrf_step :=
-  lazymatch goal with
-  | |- nrf (ret _) => apply nrf_ret
-  | |- nrf (raise _) => apply nrf_raise; done
-  | |- nrf get => apply nrf_get
-  | |- nrf (modify _) => apply nrf_modify; intros; reflexivity
-  | |- nrf (assert _) => apply nrf_assert
-  | |- nrf (ensure _ _) => apply nrf_ensure; done
-  | |- nrf (of_opt _ _) => apply nrf_of_opt; done
-  | |- nrf (getsucc _) => apply nrf_getsucc
-  | |- nrf (getref _) => apply nrf_getref
-  | |- nrf (getsuccZ _) => apply nrf_getsuccZ
-  | |- nrf request_reordering => apply nrf_request_reordering
-  | |- nrf (bind _ _) => apply nrf_bind; [|intros ?]
-  | |- nrf (forM _ _) => apply nrf_forM; intros ?
-  | |- nrf (mapM _ _) => apply nrf_mapM; intros ?
-  | |- nrf (foldM _ _ _) => apply nrf_foldM; intros ? ?
-  | |- nrf (if decide _ then _ else _) => case_decide
-  | |- nrf (if ?b then _ else _) => destruct b
-  | |- nrf (match ?x with _ => _ end) => destruct x
-  | |- nrf (let '(_, _) := ?x in _) => destruct x
-  end.
-Ltac nrf := repeat first [assumption | nrf_step].
-
-Lemma nrf_level_of u : nrf (level_of u).
-Proof. unfold level_of. nrf. Qed.
-Lemma nrf_incref u : nrf (incref u).
-Proof. unfold incref. nrf. Qed.
-Lemma nrf_decref u : nrf (decref u).
-Proof. unfold decref. nrf. Qed.
-Lemma nrf_ref u : nrf (ref u).
-Proof. unfold ref. nrf. Qed.
-Lemma nrf_find_or_add i v w : nrf (find_or_add i v w).
-Proof.
-  unfold find_or_add. nrf; try apply nrf_incref.
-Qed.
-Lemma nrf_top_cofactor u i : nrf (top_cofactor u i).
-Proof. unfold top_cofactor. nrf. Qed.
-Lemma nrf_ite_rec fuel : ∀ g u v, nrf (ite_rec fuel g u v).
-Proof.
-  induction fuel as [|f IH]; intros g u v; cbn [ite_rec]; [by apply nrf_raise|].
-  nrf; first [apply nrf_level_of | apply nrf_top_cofactor | apply IH
-             | apply nrf_find_or_add].
-Qed.
-Lemma nrf_ite_ g u v : nrf (ite_ g u v).
-Proof. unfold ite_. nrf. apply nrf_ite_rec. Qed.
-
-(** the decorator, when nothing can request a reordering *)
-Lemma try_to_reorder_off {A} (func : MS A) s r s' :
-  nrf func → last_len s = None → try_to_reorder func s = (r, s') →
-  ∃ s1, func (s <| rctx := true |>) = (r, s1) ∧ s' = s1 <| rctx := rctx s |>.
-Proof.
-  intros Hn Hl H.
-  assert (Hl' : last_len (s <| rctx := true |>) = None) by done.
-  apply try_to_reorder_inert in H as (r1&s1&Hf&[[-> _]|[-> ->]]).
-  - by destruct (Hn _ _ _ Hl' Hf) as [_ ?].
-  - eauto.
-Qed.
-Lemma nrf_try_to_reorder {A} (func : MS A) : nrf func → nrf (try_to_reorder func).
-Proof.
-  intros Hn s r s' Hl H.
-  assert (Hl' : last_len (s <| rctx := true |>) = None) by done.
-  destruct (try_to_reorder_off func s r s' Hn Hl H) as (s1&Hf&->).
-  by destruct (Hn _ _ _ Hl' Hf).
-Qed.
-Lemma nrf_ite g u v : nrf (ite g u v).
-Proof. apply nrf_try_to_reorder, nrf_ite_. Qed.
-Lemma nrf_var name : nrf (var name).
-Proof. unfold var. apply nrf_try_to_reorder. nrf. apply nrf_find_or_add. Qed.
-
-(** ** 2. Read-only computations ([pure] is defined in [Cofactor]) *)
-Lemma pure_assert b : pure (assert (S:=st) b).
-Proof. destruct b; [apply pure_ret|apply pure_raise]. Qed.
-Lemma pure_ensure e b : pure (ensure (S:=st) e b).
-Proof. destruct b; [apply pure_ret|apply pure_raise]. Qed.
-Lemma pure_of_opt {A} e (o : option A) : pure (of_opt (S:=st) e o).
-Proof. destruct o; [apply pure_ret|apply pure_raise]. Qed.
-Lemma pure_getsucc n : pure (getsucc n).
-Proof. intros s r s'. unfold getsucc. destruct (succ s !! n); by intros [= _ <-]. Qed.
-Lemma pure_getref n : pure (getref n).
-Proof. intros s r s'. unfold getref. destruct (refc s !! n); by intros [= _ <-]. Qed.
-Lemma pure_getsuccZ u : pure (getsuccZ u).
-Proof. unfold getsuccZ. case_decide; [apply pure_raise|apply pure_getsucc]. Qed.
-Lemma pure_foldM {A B} (f : B → A → MS B) (l : list A) :
-  (∀ b a, pure (f b a)) → ∀ b, pure (foldM f b l).
-Proof.
-  intros Hf. induction l as [|a l IH]; intros b; cbn [foldM]; [apply pure_ret|].
-  apply pure_bind; [apply Hf|done].
-Qed.
-
-Ltac pure_step :=
-  lazymatch goal with
-  | |- pure (ret _) => apply pure_ret
-  | |- pure (raise _) => apply pure_raise
-  | |- pure get => apply pure_get
-  | |- pure (assert _) => apply pure_assert
-  | |- pure (ensure _ _) => apply pure_ensure
-  | |- pure (of_opt _ _) => apply pure_of_opt
-  | |- pure (getsucc _) => apply pure_getsucc
-  | |- pure (getref _) => apply pure_getref
-  | |- pure (getsuccZ _) => apply pure_getsuccZ
-  | |- pure (bind _ _) => apply pure_bind; [|intros ?]
-  | |- pure (forM _ _) => apply pure_forM; intros ?
-  | |- pure (mapM _ _) => apply pure_mapM; intros ?
-  | |- pure (foldM _ _ _) => apply pure_foldM; intros ? ?
-  | |- pure (if decide _ then _ else _) => case_decide
-  | |- pure (if ?b then _ else _) => destruct b
-  | |- pure (match ?x with _ => _ end) => destruct x
-  | |- pure (let '(_, _) := ?x in _) => destruct x
-  end.
-Ltac pure := repeat first [assumption | pure_step].
-
-Lemma pure_level_of u : pure (level_of u).
-Proof. unfold level_of. pure. Qed.
-Lemma pure_ref u : pure (ref u).
-Proof. unfold ref. pure. Qed.
-Lemma pure_var_at_level l : pure (var_at_level l).
-Proof. unfold var_at_level. pure. Qed.
-Lemma pure_level_of_var v : pure (level_of_var v).
-Proof. unfold level_of_var. pure. Qed.
-Lemma pure_check_var v l : pure (check_var v l).
-Proof. unfold check_var. pure. Qed.
-Lemma pure_next_free_level l : pure (next_free_level l).
-Proof. unfold next_free_level. pure. Qed.
-Lemma pure_support_rec fuel : ∀ u acc, pure (support_rec fuel u acc).
-Proof.
-  induction fuel as [|f IH]; intros u acc; cbn [support_rec]; [apply pure_raise|].
-  pure; apply IH.
-Qed.
-Lemma pure_support_levels u : pure (support_levels u).
-Proof. unfold support_levels. pure. apply pure_support_rec. Qed.
-Lemma pure_support u : pure (support u).
-Proof. unfold support. pure; [apply pure_support_levels|apply pure_var_at_level]. Qed.
-Lemma pure_is_essential_rec fuel : ∀ u i, pure (is_essential_rec fuel u i).
-Proof.
-  induction fuel as [|f IH]; intros u i; cbn [is_essential_rec]; [apply pure_raise|].
-  pure; apply IH.
-Qed.
-Lemma pure_is_essential u v : pure (is_essential u v).
-Proof. unfold is_essential. pure. apply pure_is_essential_rec. Qed.
-Lemma pure_map_to_level_set bn ks : pure (map_to_level_set bn ks).
-Proof.
-  intros s r s' H. rewrite map_to_level_set_state in H. by injection H as _ <-.
-Qed.
-Lemma pure_configure_none : pure (configure None).
-Proof. unfold configure. pure. Qed.
-
-Lemma nrf_pure {A} (m : MS A) :
-  pure m → (∀ s, fst (m s) ≠ Err ENeedsReordering) → nrf m.
-Proof.
-  intros Hp Hr s r s' Hl H. pose proof (Hp _ _ _ H) as ->. split; [done|].
-  specialize (Hr s). by rewrite H in Hr.
-Qed.
-
-(** ** 3. The step relation of the total theorems *)
-Global Instance valid_dec s u : Decision (valid s u).
-Proof. unfold valid. apply _. Defined.
-
-Definition safe (s s' : st) : Prop :=
-  Inv s' ∧ extends s s' ∧ frame s s' ∧ ∀ L, Counts s L → Counts s' L.
-
-Lemma safe_refl s : Inv s → safe s s.
-Proof. intros. split; [done|split; [reflexivity|split; [reflexivity|done]]]. Qed.
-Lemma safe_trans s1 s2 s3 : safe s1 s2 → safe s2 s3 → safe s1 s3.
-Proof.
-  intros (Ha&Hb&Hc&H1) (Hd&He&Hf&H2). split; [done|split; [by etrans|split; [by etrans|]]].
-  intros L HL. by apply H2, H1.
-Qed.
-Lemma safe_Inv s s' : safe s s' → Inv s'.
-Proof. by intros (?&_). Qed.
-Lemma safe_last_len s s' : safe s s' → last_len s' = last_len s.
-Proof. by intros (_&_&(?&_)&_). Qed.
-
-(** old references keep their meaning (by [D_extends]) *)
-Lemma safe_den s s' : Inv s → safe s s' →
-  ∀ u, valid s u → valid s' u ∧ (∀ a, D s' u a = D s u a) ∧ ∀ ρ, denv s' u ρ = denv s u ρ.
-Proof.
-  intros HI (HI'&He&_) u Hu. split; [by apply (valid_extends s s')|]. split.
-  - intros a. by apply D_extends.
-  - intros ρ. unfold denv. pose proof He as (_&_&E). rewrite <- E. by apply D_extends.
-Qed.
-
-(** the states that differ only outside the tables and counters *)
-Lemma same_safe s s' : Inv s → same_tables s s' → refc s' = refc s → frame s s' →
-  safe s s'.
-Proof.
-  intros HI Hs Hr Hf. pose proof Hs as (E1&?&?&?&?&E6&E7).
-  split; [by eapply Inv_same|split; [|split; [done|]]].
-  - split_and!; by rewrite ?E1, ?E6, ?E7.
-  - intros L. by apply Counts_same.
-Qed.
-
-Lemma safe_ttr s s1 : safe (s <| rctx := true |>) s1 → safe s (s1 <| rctx := rctx s |>).
-Proof.
-  intros (HI&He&Hf&HC). split; [by apply Inv_rctx|split; [done|split]].
-  - destruct Hf as (?&?&?&?). by split_and!.
-  - intros L HL. apply (Counts_same s1); [done..|]. apply HC. by apply (Counts_same s).
-Qed.
-
-(** total safety of a computation: for every state satisfying the invariant *)
-Definition tsafe {A} (m : MS A) : Prop :=
-  ∀ s r s', Inv s → last_len s = None → m s = (r, s') → safe s s'.
-
-Lemma tsafe_pure {A} (m : MS A) : pure m → tsafe m.
-Proof. intros Hp s r s' HI _ H. rewrite (Hp _ _ _ H). by apply safe_refl. Qed.
-Lemma tsafe_bind {A B} (m : MS A) (f : A → MS B) :
-  tsafe m → (∀ a, tsafe (f a)) → tsafe (bind m f).
-Proof.
-  intros Hm Hf s r s' HI Hl. unfold bind. destruct (m s) as [[a|e] s1] eqn:E.
-  - pose proof (Hm _ _ _ HI Hl E) as H1. intros H2.
-    apply (safe_trans s s1 s'); [done|]. apply (Hf a s1 r s'); [by apply (safe_Inv s)| |done].
-    by rewrite (safe_last_len s s1).
-  - intros [= <- <-]. by apply (Hm _ _ _ HI Hl E).
-Qed.
-Lemma tsafe_forM {A} (l : list A) (f : A → MS unit) : (∀ a, tsafe (f a)) → tsafe (forM l f).
-Proof.
-  intros Hf. induction l as [|a l IH]; cbn [forM]; [apply tsafe_pure, pure_ret|].
-  apply tsafe_bind; [apply Hf|done].
-Qed.
-Lemma tsafe_mapM {A B} (f : A → MS B) (l : list A) : (∀ a, tsafe (f a)) → tsafe (mapM f l).
-Proof.
-  intros Hf. induction l as [|a l IH]; cbn [mapM]; [apply tsafe_pure, pure_ret|].
-  apply tsafe_bind; [apply Hf|intros b].
-  apply tsafe_bind; [done|intros bs; apply tsafe_pure, pure_ret].
-Qed.
-Lemma tsafe_foldM {A B} (f : B → A → MS B) (l : list A) :
-  (∀ b a, tsafe (f b a)) → ∀ b, tsafe (foldM f b l).
-Proof.
-  intros Hf. induction l as [|a l IH]; intros b; cbn [foldM]; [apply tsafe_pure, pure_ret|].
-  apply tsafe_bind; [apply Hf|done].
-Qed.
-Lemma tsafe_try_to_reorder {A} (func : MS A) :
-  nrf func → tsafe func → tsafe (try_to_reorder func).
-Proof.
-  intros Hn Hs s r s' HI Hl H.
-  destruct (try_to_reorder_off func s r s' Hn Hl H) as (s1&Hf&->).
-  apply safe_ttr. apply (Hs _ _ _ (proj2 (Inv_rctx s true) HI) Hl Hf).
-Qed.
-
-Ltac tsafe_step :=
-  lazymatch goal with
-  | |- tsafe (ret _) => apply tsafe_pure, pure_ret
-  | |- tsafe (raise _) => apply tsafe_pure, pure_raise
-  | |- tsafe get => apply tsafe_pure, pure_get
-  | |- tsafe (assert _) => apply tsafe_pure, pure_assert
-  | |- tsafe (ensure _ _) => apply tsafe_pure, pure_ensure
-  | |- tsafe (of_opt _ _) => apply tsafe_pure, pure_of_opt
-  | |- tsafe (getsucc _) => apply tsafe_pure, pure_getsucc
-  | |- tsafe (getref _) => apply tsafe_pure, pure_getref
-  | |- tsafe (getsuccZ _) => apply tsafe_pure, pure_getsuccZ
-  | |- tsafe (level_of _) => apply tsafe_pure, pure_level_of
-  | |- tsafe (level_of_var _) => apply tsafe_pure, pure_level_of_var
-  | |- tsafe (var_at_level _) => apply tsafe_pure, pure_var_at_level
-  | |- tsafe (bind _ _) => apply tsafe_bind; [|intros ?]
-  | |- tsafe (forM _ _) => apply tsafe_forM; intros ?
-  | |- tsafe (mapM _ _) => apply tsafe_mapM; intros ?
-  | |- tsafe (foldM _ _ _) => apply tsafe_foldM; intros ? ?
-  | |- tsafe (if decide _ then _ else _) => case_decide
-  | |- tsafe (if ?b then _ else _) => destruct b
-  | |- tsafe (match ?x with _ => _ end) => destruct x
-  | |- tsafe (let '(_, _) := ?x in _) => destruct x
-  end.
-Ltac tsafe := repeat first [assumption | tsafe_step].
-
-(** ** 4. [find_or_add] *)
-
-Lemma request_reordering_safe s r s1 : Inv s → request_reordering s = (r, s1) → safe s s1.
-Proof.
-  intros HI H. pose proof (request_reordering_spec _ _ _ H) as (Hs&Hf&_).
-  apply request_reordering_tables in H as [_ Hr]. by apply same_safe.
-Qed.
-
-(** [find_or_add] checks that the level is declared and that the children
-    are nodes, but NOT that the level is above the levels of the children.
-    The guard below is exactly what is missing: whenever the three tests
-    pass and the children differ, the level must be above both children. *)
-Theorem find_or_add_total s i v w r s' :
-  Inv s →
-  (i < nvars s → valid s v → valid s w → v ≠ w → i < lvl_of s v ∧ i < lvl_of s w) →
-  find_or_add i v w s = (r, s') →
-  safe s s'.
-Proof.
-  intros HI Hg Hrun. pose proof Hrun as Hrun0. revert Hrun.
-  unfold find_or_add. unfold bind at 1.
-  destruct (request_reordering s) as [[[]|e] s1] eqn:Hrr.
-  2:{ intros [= <- <-]. by apply (request_reordering_safe s _ _ HI Hrr). }
-  pose proof (request_reordering_safe s _ _ HI Hrr) as Hs1.
-  pose proof (request_reordering_spec _ _ _ Hrr) as ((E1&_&_&_&_&E6&_)&_&_).
-  cbn [bind get].
-  case_decide as Hi; [by intros [= <- <-]|].
-  destruct (mem v s1) eqn:Hmv; cbn [negb]; [|by intros [= <- <-]].
-  destruct (mem w s1) eqn:Hmw; cbn [negb]; [|by intros [= <- <-]].
-  case_decide as Hvw; [by intros [= <- <-]|]. intros _.
-  apply mem_valid in Hmv, Hmw. unfold valid in Hmv, Hmw. rewrite E1 in Hmv, Hmw.
-  assert (Hn : nvars s1 = nvars s) by (unfold nvars; by rewrite E6).
-  destruct Hg as [Hlv Hlw]; [lia|done|done|by intros ->|].
-  destruct (find_or_add_spec s i v w r s' HI Hmv Hmw Hlv Hlw Hrun0) as (HI'&He&Hf&_).
-  split; [done|split; [done|split; [done|]]].
-  intros L HL. by apply (find_or_add_counts s L i v w r s').
-Qed.
-
-(** the variable node at an ARBITRARY level [j] (declared or not) *)
-Lemma find_or_add_var_total s j r s' :
-  Inv s → find_or_add j (-1) 1 s = (r, s') →
-  safe s s' ∧ ∀ u, r = Ok u → valid s' u.
-Proof.
-  intros HI Hrun. split.
-  - apply (find_or_add_total s j (-1) 1 r s' HI); [|done].
-    intros Hj _ _ _. rewrite !(lvl_term s HI) by done. done.
-  - intros u ->. destruct (decide (j < nvars s)) as [Hj|Hj].
-    + apply find_or_add_spec in Hrun as (_&_&_&Hu&_); try done;
-        [by apply valid_m1|by apply valid_1|by rewrite (lvl_term s HI)..].
-    + exfalso. revert Hrun. unfold find_or_add. unfold bind at 1.
-      destruct (request_reordering s) as [[[]|e] s1] eqn:Hrr; [|done].
-      pose proof (request_reordering_spec _ _ _ Hrr) as ((_&_&_&_&_&E6&_)&_&_).
-      cbn [bind get]. rewrite decide_True; [done|]. unfold nvars in *. rewrite E6. lia.
-Qed.
-Lemma tsafe_find_or_add_var j : tsafe (find_or_add j (-1) 1).
-Proof. intros s r s' HI _ H. by apply (find_or_add_var_total s j r s'). Qed.
-
-(** ** 5. [_ite] and [ite] with arbitrary operands *)
-Lemma getsuccZ_junk s u : ¬ valid s u → getsuccZ u s = (Err EKey, s).
-Proof.
-  intros Hn. unfold getsuccZ. case_decide; [done|]. unfold getsucc.
-  destruct (succ s !! absn u) eqn:E; [|done]. exfalso. apply Hn. split; [done|by eexists].
-Qed.
-Lemma level_of_junk s u : ¬ valid s u → level_of u s = (Err EKey, s).
-Proof. intros Hn. unfold level_of. by rewrite (bind_err _ _ _ _ _ (getsuccZ_junk s u Hn)). Qed.
-
-Theorem ite_rec_total fuel g u v s r s' :
-  Inv s → nvars s < fuel → ite_rec fuel g u v s = (r, s') →
-  safe s s' ∧ (valid s u → valid s v → ∀ w, r = Ok w → valid s' w).
-Proof.
-  intros HI Hfuel Hrun.
-  destruct (decide (valid s g ∧ valid s u ∧ valid s v)) as [(Hg&Hu&Hv)|Hn].
-  { assert (Hf : nvars s - minlvl3 s g u v < fuel) by lia.
-    pose proof (ite_rec_spec fuel s g u v r s' HI Hg Hu Hv Hf Hrun) as (?&?&?&Hr).
-    split.
-    - split; [done|split; [done|split; [done|]]]. intros L HL.
-      by apply (ite_rec_counts fuel s L g u v r s').
-    - intros _ _ w ->. by destruct Hr as (?&_). }
-  destruct fuel as [|f]; [lia|]. cbn [ite_rec] in Hrun.
-  assert (Hsame : (r, s') = (r, s') → s' = s → safe s s' ∧
-            (valid s u → valid s v → ∀ w, r = Ok w → valid s' w) →
-            safe s s' ∧ (valid s u → valid s v → ∀ w, r = Ok w → valid s' w)) by auto.
-  destruct (decide (g = 1%Z)) as [->|Hg1].
-  { injection Hrun as <- <-. split; [by apply safe_refl|]. by intros ? _ w [= <-]. }
-  destruct (decide (g = (-1)%Z)) as [->|Hgm1].
-  { injection Hrun as <- <-. split; [by apply safe_refl|]. by intros _ ? w [= <-]. }
-  cbn [bind get] in Hrun.
-  destruct (ite_tab s !! (g, u, v)) as [w0|] eqn:Hc.
-  { injection Hrun as <- <-. split; [by apply safe_refl|]. intros _ _ w [= <-].
-    by destruct (inv_ite _ HI _ _ _ _ Hc) as (_&_&_&?&_). }
-  destruct (decide (valid s g)) as [Hg|Hg]; cycle 1.
-  { rewrite (bind_err _ _ _ _ _ (level_of_junk s g Hg)) in Hrun. injection Hrun as <- <-.
-    split; [by apply safe_refl|done]. }
-  rewrite (bind_ok _ _ _ _ _ (level_of_ok s g Hg)) in Hrun.
-  destruct (decide (valid s u)) as [Hu|Hu]; cycle 1.
-  { rewrite (bind_err _ _ _ _ _ (level_of_junk s u Hu)) in Hrun. injection Hrun as <- <-.
-    split; [by apply safe_refl|done]. }
-  rewrite (bind_ok _ _ _ _ _ (level_of_ok s u Hu)) in Hrun.
-  destruct (decide (valid s v)) as [Hv|Hv]; [by destruct Hn|].
-  rewrite (bind_err _ _ _ _ _ (level_of_junk s v Hv)) in Hrun. injection Hrun as <- <-.
-  split; [by apply safe_refl|done].
-Qed.
-
-Lemma tsafe_ite_ g u v : tsafe (ite_ g u v).
-Proof.
-  intros s r s' HI _ H. unfold ite_ in H. cbn [bind get] in H.
-  apply ite_rec_total in H as [? _]; [done|done|lia].
-Qed.
-Lemma tsafe_ite g u v : tsafe (ite g u v).
-Proof. apply tsafe_try_to_reorder; [apply nrf_ite_|apply tsafe_ite_]. Qed.
-
-(** C17, [ite]: any three integers *)
-Theorem ite_total s g u v r s' :
-  Inv s → last_len s = None → ite g u v s = (r, s') →
-  safe s s' ∧ r ≠ Err ENeedsReordering ∧
-  (valid s u → valid s v → ∀ w, r = Ok w → valid s' w).
-Proof.
-  intros HI Hl H. split; [by apply (tsafe_ite g u v s r s')|]. split.
-  { by destruct (nrf_ite g u v s r s' Hl H). }
-  intros Hu Hv w ->. unfold ite in H.
-  destruct (try_to_reorder_off _ s _ s' (nrf_ite_ g u v) Hl H) as (s1&Hf&->).
-  unfold ite_ in Hf. cbn [bind get] in Hf.
-  apply ite_rec_total in Hf as [_ Hw]; [|by apply Inv_rctx|cbn; lia].
-  by apply (Hw Hu Hv w).
-Qed.
-
-(** [var] with an arbitrary name *)
-Lemma tsafe_var name : tsafe (var name).
-Proof.
-  unfold var. apply tsafe_try_to_reorder.
-  - nrf. apply nrf_find_or_add.
-  - tsafe. apply tsafe_find_or_add_var.
-Qed.
-Theorem var_total s name r s' :
-  Inv s → last_len s = None → var name s = (r, s') →
-  safe s s' ∧ r ≠ Err ENeedsReordering ∧
-  (vars s !! name = None → r = Err EValue ∧ s' = s) ∧
-  ∀ u, r = Ok u → valid s' u.
-Proof.
-  intros HI Hl H. split; [by apply (tsafe_var name s r s')|]. split.
-  { by destruct (nrf_var name s r s' Hl H). }
-  unfold var in H.
-  assert (Hn : nrf (s0 <- get ;; match vars s0 !! name with
-                                 | Some j => find_or_add j (-1) 1
-                                 | None => raise EValue end))
-    by (nrf; apply nrf_find_or_add).
-  destruct (try_to_reorder_off _ s _ s' Hn Hl H) as (s1&Hf&->).
-  cbn [bind get] in Hf. change (vars (s <| rctx := true |>)) with (vars s) in Hf.
-  split.
-  - intros E. rewrite E in Hf. injection Hf as <- <-. split; [done|]. by destruct s.
-  - intros u ->. destruct (vars s !! name) as [j|]; [|done].
-    apply find_or_add_var_total in Hf as [_ Hu]; [|by apply Inv_rctx]. by apply Hu.
-Qed.
-
-(** ** 6. The recursions that build nodes at computed levels keep the counts
-    exact (their specifications give the rest of [safe]) *)
-Lemma ite_counts s L g u v r s' :
-  Inv s → last_len s = None → Counts s L → ite g u v s = (r, s') → Counts s' L.
-Proof. intros HI Hl HL H. destruct (tsafe_ite g u v s r s' HI Hl H) as (_&_&_&HC). by apply HC. Qed.
-
-Lemma frame_off s s' : frame s s' → last_len s = None → last_len s' = None.
-Proof. intros (E&_) H. by rewrite E. Qed.
-
-Lemma quantify_rec_counts fuel : ∀ s L u ord q fa cache r s',
-  Inv s → Counts s L → valid s u → last_len s = None →
-  Quantify.ord_ok s u ord q → Quantify.cache_ok s q fa cache →
-  nvars s - lvl_of s u < fuel →
-  quantify_rec fuel u ord q fa cache s = (r, s') → Counts s' L.
-Proof.
-  induction fuel as [|f IH]; intros s L u ord q fa cache r s' HI HL Hu Hoff Hord Hc Hfuel; [lia|].
-  assert (Hnr : no_reorder s) by (by right).
-  cbn [quantify_rec].
-  destruct (node_cases s HI u Hu) as [[E El]|(t&Ht&Hn1&Hlo&Hl&Hln&Hvl&Hvh&Hhp&Hll&Hlh&Hne)].
-  { rewrite decide_True by (split; [done|apply Hu]). by intros [= <- <-]. }
-  rewrite decide_False by (intros [? ?]; done).
-  destruct (cache !! u) as [x|] eqn:Hcu; [by intros [= <- <-]|].
-  rewrite (bind_ok _ _ _ _ _ (getsuccZ_ok s u t (proj1 Hu) Ht)).
-  unfold is_term, assert. rewrite bool_decide_eq_false_2 by done. cbn [negb].
-  rewrite (bind_ok _ _ s tt s) by done.
-  cbv zeta.
-  set (i := t_lvl t) in *. set (v := flip (t_lo t) u). set (w := flip (t_hi t) u).
-  assert (Hv : valid s v) by (by apply Quantify.valid_flip).
-  assert (Hw : valid s w) by (by apply Quantify.valid_flip).
-  assert (Hlv : i < lvl_of s v) by (unfold v; by rewrite Quantify.lvl_flip).
-  assert (Hlw : i < lvl_of s w) by (unfold w; by rewrite Quantify.lvl_flip).
-  clearbody v w.
-  destruct (skip_below i ord) as [|k ord'] eqn:Eo; [by intros [= <- <-]|].
-  assert (Hord' : ∀ s0 x, lvl_of s0 x = lvl_of s x → i < lvl_of s x →
-            Quantify.ord_ok s0 x (k :: ord') q).
-  { intros s0 x Ex Hx j Hjq Hj. rewrite <- Eo. apply elem_of_skip_below; [|lia].
-    apply Hord; [done|lia]. }
-  destruct (quantify_rec f v (k :: ord') q fa cache s) as [rp s1] eqn:Ep.
-  assert (HC1 : Counts s1 L).
-  { apply (IH s L v (k :: ord') q fa cache rp s1); try done; [by apply Hord'|lia]. }
-  pose proof Ep as Ep'.
-  apply quantify_rec_spec in Ep' as (HI1&He1&Hf1&Hp); [|done|done|done|by apply Hord'|done|lia].
-  destruct rp as [[p c1]|e]; cycle 1.
-  { rewrite (bind_err _ _ _ _ _ Ep). by intros [= <- <-]. }
-  rewrite (bind_ok _ _ _ _ _ Ep). destruct Hp as (Hpv&Hpl&Hc1&HpD).
-  assert (Hnv1 : nvars s1 = nvars s) by (by apply extends_nvars).
-  assert (Hw1 : valid s1 w) by (by apply (valid_extends s s1)).
-  assert (Elw1 : lvl_of s1 w = lvl_of s w) by (by apply lvl_extends).
-  assert (Hoff1 : last_len s1 = None) by (by apply (frame_off s s1)).
-  destruct (quantify_rec f w (k :: ord') q fa c1 s1) as [rq s2] eqn:Eq.
-  assert (HC2 : Counts s2 L).
-  { apply (IH s1 L w (k :: ord') q fa c1 rq s2); try done; [by apply Hord'|].
-    rewrite Hnv1, Elw1; lia. }
-  pose proof Eq as Eq'.
-  apply quantify_rec_spec in Eq' as (HI2&He2&Hf2&Hq);
-    [|done|done|by right|by apply Hord'|done|rewrite Hnv1, Elw1; lia].
-  destruct rq as [[q' c2]|e]; cycle 1.
-  { rewrite (bind_err _ _ _ _ _ Eq). by intros [= <- <-]. }
-  rewrite (bind_ok _ _ _ _ _ Eq).
-  assert (Hoff2 : last_len s2 = None) by (by apply (frame_off s1 s2)).
-  set (m := if decide (i ∈ q)
-            then if fa then ite p q' (-1) else ite p 1 q'
-            else find_or_add i p q').
-  destruct (m s2) as [rw s3] eqn:Ew.
-  assert (HC3 : Counts s3 L).
-  { subst m. destruct (decide (i ∈ q)); [destruct fa|].
-    - by apply (ite_counts s2 L _ _ _ _ _ HI2 Hoff2 HC2 Ew).
-    - by apply (ite_counts s2 L _ _ _ _ _ HI2 Hoff2 HC2 Ew).
-    - by apply (find_or_add_counts s2 L _ _ _ _ _ HI2 HC2 Ew). }
-  destruct rw as [x|e].
-  - rewrite (bind_ok _ _ _ _ _ Ew). by intros [= <- <-].
-  - rewrite (bind_err _ _ _ _ _ Ew). by intros [= <- <-].
-Qed.
-
-Lemma quantify_rec_safe fuel s u ord q fa cache r s' :
-  Inv s → valid s u → last_len s = None →
-  Quantify.ord_ok s u ord q → Quantify.cache_ok s q fa cache →
-  nvars s - lvl_of s u < fuel →
-  quantify_rec fuel u ord q fa cache s = (r, s') → safe s s'.
-Proof.
-  intros HI Hu Hoff Hord Hc Hfuel Hrun.
-  pose proof (quantify_rec_spec fuel s u ord q fa cache r s' HI Hu ltac:(by right)
-                Hord Hc Hfuel Hrun) as (?&?&?&_).
-  split; [done|split; [done|split; [done|]]]. intros L HL.
-  by apply (quantify_rec_counts fuel s L u ord q fa cache r s').
-Qed.
-
-Lemma cofactor_rec_counts fuel : ∀ s L u ord values cache r s',
-  Inv s → Counts s L → valid s u →
-  Cofactor.ord_ok s u ord values → Cofactor.cache_ok s values cache →
-  nvars s - lvl_of s u < fuel →
-  cofactor_rec fuel u ord values cache s = (r, s') → Counts s' L.
-Proof.
-  induction fuel as [|f IH]; intros s L u ord values cache r s' HI HL Hu Hord Hc Hfuel; [lia|].
-  cbn [cofactor_rec].
-  destruct (decide (absn u = 1%positive ∧ u ≠ 0%Z)) as [[E1 _]|Hnt]; [by intros [= <- <-]|].
-  destruct (cache !! u) as [x|] eqn:Hcu; [by intros [= <- <-]|].
-  destruct (node_cases s HI u Hu) as [[E El]|(t&Ht&Hn1&Hlo&Hl&Hln&Hvl&Hvh&Hhp&Hll&Hlh&Hne)].
-  { exfalso. apply Hnt. split; [done|apply Hu]. }
-  rewrite (bind_ok _ _ _ _ _ (getsuccZ_ok s u t (proj1 Hu) Ht)).
-  unfold is_term, assert. rewrite bool_decide_eq_false_2 by done. cbn [negb].
-  rewrite (bind_ok _ _ s tt s) by done.
-  rewrite <- Hl in Hll, Hlh.
-  destruct (skip_below (t_lvl t) ord) as [|n ord'] eqn:Hsk; [by intros [= <- <-]|].
-  assert (Hord' : ∀ s1 c, lvl_of s u ≤ lvl_of s1 c → Cofactor.ord_ok s1 c (n :: ord') values).
-  { intros s1 c Hl1. rewrite <- Hsk, <- Hl. by apply (ord_ok_child s s1 u). }
-  cbv iota. clear Hsk. set (ord1 := n :: ord') in *. clearbody ord1. clear n ord'.
-  destruct (values !! t_lvl t) as [val|] eqn:Hval.
-  - set (c := if val then t_hi t else t_lo t).
-    assert (Hvc : valid s c) by (subst c; by destruct val).
-    assert (Hlc : lvl_of s u < lvl_of s c) by (subst c; by destruct val).
-    destruct (cofactor_rec f c ord1 values cache s) as [rp s1] eqn:Ep.
-    assert (HC1 : Counts s1 L).
-    { apply (IH s L c ord1 values cache rp s1); try done; [apply Hord'; lia|lia]. }
-    destruct rp as [[x c1]|e].
-    + rewrite (bind_ok _ _ _ _ _ Ep). by intros [= <- <-].
-    + rewrite (bind_err _ _ _ _ _ Ep). by intros [= <- <-].
-  - rewrite bind_assoc.
-    destruct (cofactor_rec f (t_lo t) ord1 values cache s) as [rp s1] eqn:Ep.
-    assert (HC1 : Counts s1 L).
-    { apply (IH s L (t_lo t) ord1 values cache rp s1); try done; [apply Hord'; lia|lia]. }
-    pose proof Ep as Ep'.
-    apply cofactor_rec_aux in Ep' as (HI1&He1&Hf1&Hp); [|done|done|apply Hord'; lia|done|lia].
-    destruct rp as [[p c1]|e]; cycle 1.
-    { rewrite (bind_err _ _ _ _ _ Ep). by intros [= <- <-]. }
-    rewrite (bind_ok _ _ _ _ _ Ep). cbv beta iota. rewrite bind_assoc.
-    destruct Hp as (Hpv&Hpl&Hc1&HpD).
-    assert (Hnv1 : nvars s1 = nvars s) by (by apply extends_nvars).
-    destruct (cofactor_rec f (t_hi t) ord1 values c1 s1) as [rq s2] eqn:Eq.
-    assert (HC2 : Counts s2 L).
-    { apply (IH s1 L (t_hi t) ord1 values c1 rq s2); try done.
-      - by apply (valid_extends s s1).
-      - apply Hord'; rewrite (lvl_extends s s1) by done; lia.
-      - rewrite Hnv1, (lvl_extends s s1) by done; lia. }
-    pose proof Eq as Eq'.
-    apply cofactor_rec_aux in Eq' as (HI2&He2&Hf2&Hq);
-      [|done|by apply (valid_extends s s1)
-       |apply Hord'; rewrite (lvl_extends s s1) by done; lia|done
-       |rewrite Hnv1, (lvl_extends s s1) by done; lia].
-    destruct rq as [[q c2]|e]; cycle 1.
-    { rewrite (bind_err _ _ _ _ _ Eq). by intros [= <- <-]. }
-    rewrite (bind_ok _ _ _ _ _ Eq). cbv beta iota. rewrite bind_assoc.
-    destruct (find_or_add (t_lvl t) p q s2) as [rw s3] eqn:Ew.
-    assert (HC3 : Counts s3 L) by (by apply (find_or_add_counts s2 L _ _ _ _ _ HI2 HC2 Ew)).
-    destruct rw as [w|e].
-    + rewrite (bind_ok _ _ _ _ _ Ew). cbn [bind ret]. by intros [= <- <-].
-    + rewrite (bind_err _ _ _ _ _ Ew). by intros [= <- <-].
-Qed.
-
-Lemma cofactor_rec_safe fuel s u ord values cache r s' :
-  Inv s → valid s u →
-  Cofactor.ord_ok s u ord values → Cofactor.cache_ok s values cache →
-  nvars s - lvl_of s u < fuel →
-  cofactor_rec fuel u ord values cache s = (r, s') → safe s s'.
-Proof.
-  intros HI Hu Hord Hc Hfuel Hrun.
-  pose proof (cofactor_rec_aux fuel s u ord values cache r s' HI Hu Hord Hc Hfuel Hrun)
-    as (?&?&?&_).
-  split; [done|split; [done|split; [done|]]]. intros L HL.
-  by apply (cofactor_rec_counts fuel s L u ord values cache r s').
-Qed.
-
-Lemma compose_rec_counts fuel : ∀ s L f_ j g cache r s',
-  Inv s → Counts s L → valid s f_ → valid s g → last_len s = None →
-  cache_ok_c s j cache →
-  nvars s - (lvl_of s f_ `min` lvl_of s g) < fuel →
-  compose_rec fuel f_ j g cache s = (r, s') → Counts s' L.
-Proof.
-  induction fuel as [|fu IH]; intros s L f_ j g cache r s' HI HL Hf Hg Hoff Hc Hfuel; [lia|].
-  assert (Hnr : no_reorder s) by (by right).
-  cbn [compose_rec].
-  destruct (decide (absn f_ = 1%positive ∧ f_ ≠ 0%Z)) as [[E1 _]|Hnt]; [by intros [= <- <-]|].
-  destruct (cache !! (f_, g)) as [x|] eqn:Hcu; [by intros [= <- <-]|].
-  destruct (node_cases s HI f_ Hf) as [[E El]|(t&Ht&Hn1&Hlo&Hl&Hln&Hvl&Hvh&Hhp&Hll&Hlh&Hne)].
-  { exfalso. apply Hnt. split; [done|apply Hf]. }
-  rewrite (bind_ok _ _ _ _ _ (getsuccZ_ok s f_ t (proj1 Hf) Ht)).
-  unfold is_term, assert. rewrite bool_decide_eq_false_2 by done. cbn [negb].
-  rewrite (bind_ok _ _ s tt s) by done.
-  destruct (decide (j < t_lvl t)) as [Hji|Hji]; [by intros [= <- <-]|].
-  destruct (decide (t_lvl t = j)) as [Eij|Hij].
-  - rewrite bind_assoc.
-    destruct (ite g (t_hi t) (t_lo t) s) as [rw s1] eqn:Ew.
-    assert (HC1 : Counts s1 L) by (by apply (ite_counts s L _ _ _ _ _ HI Hoff HL Ew)).
-    destruct rw as [w|e].
-    + rewrite (bind_ok _ _ _ _ _ Ew). cbn [bind ret]. by intros [= <- <-].
-    + rewrite (bind_err _ _ _ _ _ Ew). by intros [= <- <-].
-  - rewrite bind_assoc.
-    rewrite (bind_ok _ _ _ _ _ (level_of_ok s g Hg)). cbv beta zeta.
-    set (z := t_lvl t `min` lvl_of s g) in *.
-    assert (Hzf : z ≤ lvl_of s f_) by (rewrite Hl; apply Nat.le_min_l).
-    assert (Hzg : z ≤ lvl_of s g) by apply Nat.le_min_r.
-    assert (Hzn : z < nvars s) by (pose proof (Nat.le_min_l (t_lvl t) (lvl_of s g)); lia).
-    assert (Hfuel' : nvars s - z < S fu) by (subst z; by rewrite <- Hl).
-    destruct (top_cofactor_ok s f_ z HI Hf Hzf) as (f0&f1&Ef&Hvf0&Hvf1&Lf0&Lf1&_&_&Df).
-    destruct (top_cofactor_ok s g z HI Hg Hzg) as (g0&g1&Eg&Hvg0&Hvg1&Lg0&Lg1&_&_&Dg).
-    apply above_or_term in Lf0, Lf1, Lg0, Lg1; try done.
-    rewrite bind_assoc, (bind_ok _ _ _ _ _ Ef). cbv beta iota.
-    rewrite bind_assoc, (bind_ok _ _ _ _ _ Eg). cbv beta iota.
-    rewrite bind_assoc.
-    clearbody z. clear Hfuel.
-    destruct (compose_rec fu f0 j g0 cache s) as [rp s1] eqn:Ep.
-    assert (HC1 : Counts s1 L).
-    { apply (IH s L f0 j g0 cache rp s1); try done. by apply (min_descent z). }
-    pose proof Ep as Ep'.
-    apply compose_rec_aux in Ep' as (HI1&He1&Hf1&Hp);
-      [|done|done|done|done|done|by apply (min_descent z)].
-    destruct rp as [[p c1]|e]; cycle 1.
-    { rewrite (bind_err _ _ _ _ _ Ep). by intros [= <- <-]. }
-    rewrite (bind_ok _ _ _ _ _ Ep). cbv beta iota. rewrite bind_assoc.
-    destruct Hp as (Hpv&Hpl&Hc1&HpD).
-    assert (Hnv1 : nvars s1 = nvars s) by (by apply extends_nvars).
-    assert (Hoff1 : last_len s1 = None) by (by apply (frame_off s s1)).
-    destruct (compose_rec fu f1 j g1 c1 s1) as [rq s2] eqn:Eq.
-    assert (HC2 : Counts s2 L).
-    { apply (IH s1 L f1 j g1 c1 rq s2); try done; try (by apply (valid_extends s s1)).
-      rewrite Hnv1, !(lvl_extends s s1) by done; by apply (min_descent z). }
-    pose proof Eq as Eq'.
-    apply compose_rec_aux in Eq' as (HI2&He2&Hf2&Hq);
-      [|done|by apply (valid_extends s s1)|by apply (valid_extends s s1)
-       |by right|done
-       |rewrite Hnv1, !(lvl_extends s s1) by done; by apply (min_descent z)].
-    destruct rq as [[q c2]|e]; cycle 1.
-    { rewrite (bind_err _ _ _ _ _ Eq). by intros [= <- <-]. }
-    rewrite (bind_ok _ _ _ _ _ Eq). cbv beta iota. rewrite bind_assoc.
-    destruct (find_or_add z p q s2) as [rw s3] eqn:Ew.
-    assert (HC3 : Counts s3 L) by (by apply (find_or_add_counts s2 L _ _ _ _ _ HI2 HC2 Ew)).
-    destruct rw as [w|e].
-    + rewrite (bind_ok _ _ _ _ _ Ew). cbn [bind ret]. by intros [= <- <-].
-    + rewrite (bind_err _ _ _ _ _ Ew). by intros [= <- <-].
-Qed.
-
-Lemma compose_rec_safe fuel s f_ j g cache r s' :
-  Inv s → valid s f_ → valid s g → last_len s = None →
-  cache_ok_c s j cache →
-  nvars s - (lvl_of s f_ `min` lvl_of s g) < fuel →
-  compose_rec fuel f_ j g cache s = (r, s') → safe s s'.
-Proof.
-  intros HI Hf Hg Hoff Hc Hfuel Hrun.
-  pose proof (compose_rec_aux fuel s f_ j g cache r s' HI Hf Hg ltac:(by right) Hc Hfuel Hrun)
-    as (?&?&?&_).
-  split; [done|split; [done|split; [done|]]]. intros L HL.
-  by apply (compose_rec_counts fuel s L f_ j g cache r s').
-Qed.
-
-(** ** 7. Public operations with arbitrary arguments *)
-Lemma tsafe_bind_get {B} (f : st → MS B) :
-  (∀ s r s', Inv s → last_len s = None → f s s = (r, s') → safe s s') →
-  tsafe (bind get f).
-Proof. intros H s r s' HI Hl. cbn [bind get]. by apply H. Qed.
-
-Lemma bind_fst_state {A C} (m : MS A) (h : A → C) s r s' :
-  (x <- m ;; ret (h x)) s = (r, s') → ∃ r0, m s = (r0, s').
-Proof.
-  unfold bind. destruct (m s) as [[x|e] s1]; intros [= <- <-]; eauto.
-Qed.
-
-Lemma junk_not_terminal s u : Inv s → ¬ valid s u → ¬ (absn u = 1%positive ∧ u ≠ 0%Z).
-Proof.
-  intros HI Hn [E Hu]. apply Hn. split; [done|]. rewrite E, (inv_term _ HI). by eexists.
-Qed.
-
-(** *** [quantify] *)
-Lemma nrf_map_key bn first k : nrf (map_key bn first k).
-Proof. unfold map_key. nrf. destruct first; by apply nrf_raise. Qed.
-Lemma nrf_map_to_level_set bn ks : nrf (map_to_level_set bn ks).
-Proof. unfold map_to_level_set. nrf; apply nrf_map_key. Qed.
-Lemma nrf_map_to_level_dict {A} bn (kv : list (nat * A)) : nrf (map_to_level_dict bn kv).
-Proof. unfold map_to_level_dict. nrf; apply nrf_map_key. Qed.
-Lemma nrf_quantify_rec fuel : ∀ u ord q fa cache, nrf (quantify_rec fuel u ord q fa cache).
-Proof.
-  induction fuel as [|f IH]; intros u ord q fa cache; cbn [quantify_rec];
-    [by apply nrf_raise|].
-  nrf; first [apply IH | apply nrf_ite | apply nrf_find_or_add].
-Qed.
-Lemma nrf_quantify_body u bn qvars fa :
-  nrf (q <- map_to_level_set bn qvars ;; s <- get ;;
-       r <- quantify_rec (S (S (nvars s))) u (sorted_levels q) q fa ∅ ;; ret (fst r)).
-Proof. nrf; [apply nrf_map_to_level_set|apply nrf_quantify_rec]. Qed.
-Lemma nrf_quantify u bn qvars fa : nrf (quantify u bn qvars fa).
-Proof. apply nrf_try_to_reorder, nrf_quantify_body. Qed.
-
-Lemma quantify_rec_total s u q fa fuel r s' :
-  Inv s → last_len s = None → nvars s < fuel →
-  quantify_rec fuel u (sorted_levels q) q fa ∅ s = (r, s') → safe s s'.
-Proof.
-  intros HI Hl Hfuel Hrun. destruct (decide (valid s u)) as [Hu|Hu].
-  - apply (quantify_rec_safe fuel s u (sorted_levels q) q fa ∅ r s' HI Hu Hl
-             (ord_ok_sorted_levels s u q) (Quantify.cache_ok_empty s q fa)); [lia|done].
-  - destruct fuel as [|f]; [lia|]. cbn [quantify_rec] in Hrun.
-    rewrite decide_False in Hrun by (by apply (junk_not_terminal s)).
-    rewrite lookup_empty in Hrun.
-    rewrite (bind_err _ _ _ _ _ (getsuccZ_junk s u Hu)) in Hrun.
-    injection Hrun as <- <-. by apply safe_refl.
-Qed.
-
-Lemma tsafe_quantify u bn qvars fa : tsafe (quantify u bn qvars fa).
-Proof.
-  apply tsafe_try_to_reorder; [apply nrf_quantify_body|].
-  apply tsafe_bind; [apply tsafe_pure, pure_map_to_level_set|intros q].
-  apply tsafe_bind_get. intros s r s' HI Hl H.
-  apply bind_fst_state in H as [r0 H].
-  apply (quantify_rec_total s u q fa (S (S (nvars s))) r0 s'); try done. lia.
-Qed.
-
-(** *** [cofactor] *)
-Lemma nrf_cofactor_rec fuel : ∀ u ord values cache, nrf (cofactor_rec fuel u ord values cache).
-Proof.
-  induction fuel as [|f IH]; intros u ord values cache; cbn [cofactor_rec];
-    [by apply nrf_raise|].
-  nrf; first [apply IH | apply nrf_find_or_add].
-Qed.
-Lemma nrf_cofactor_body u bn values :
-  nrf (lv <- map_to_level_dict bn values ;; s <- get ;;
-       ensure EValue (mem u s) ;;;
-       r <- cofactor_rec (S (S (nvars s))) u (sorted_levels (dom lv)) lv ∅ ;; ret (fst r)).
-Proof. nrf; [apply nrf_map_to_level_dict|apply nrf_cofactor_rec]. Qed.
-Lemma nrf_cofactor u bn values : nrf (cofactor u bn values).
-Proof. apply nrf_try_to_reorder, nrf_cofactor_body. Qed.
-
-Lemma tsafe_cofactor u bn values : tsafe (cofactor u bn values).
-Proof.
-  apply tsafe_try_to_reorder; [apply nrf_cofactor_body|].
-  apply tsafe_bind; [apply tsafe_pure, pure_map_to_level_dict|intros lv].
-  apply tsafe_bind_get. intros s r s' HI Hl H.
-  destruct (mem u s) eqn:Hm; cbn [ensure] in H; cycle 1.
-  { injection H as <- <-. by apply safe_refl. }
-  apply mem_valid in Hm. rewrite (bind_ok _ _ s tt s) in H by done.
-  apply bind_fst_state in H as [r0 H].
-  apply (cofactor_rec_safe (S (S (nvars s))) s u (sorted_levels (dom lv)) lv ∅ r0 s' HI Hm);
-    [|apply Cofactor.cache_ok_empty|lia|done].
-  intros k Hk _. apply elem_of_sorted_levels. by apply elem_of_dom.
-Qed.
-
-(** *** [compose] *)
-Lemma nrf_compose_rec fuel : ∀ f_ j g cache, nrf (compose_rec fuel f_ j g cache).
-Proof.
-  induction fuel as [|f IH]; intros f_ j g cache; cbn [compose_rec];
-    [by apply nrf_raise|].
-  nrf; first [apply IH | apply nrf_ite | apply nrf_find_or_add | apply nrf_level_of
-             | apply nrf_top_cofactor].
-Qed.
-Lemma nrf_vector_compose_rec fuel : ∀ f_ ls cache, nrf (vector_compose_rec fuel f_ ls cache).
-Proof.
-  induction fuel as [|f IH]; intros f_ ls cache; cbn [vector_compose_rec];
-    [by apply nrf_raise|].
-  nrf; first [apply IH | apply nrf_ite | apply nrf_find_or_add].
-Qed.
-Lemma nrf_level_of_var v : nrf (level_of_var v).
-Proof. unfold level_of_var. nrf. Qed.
-Lemma nrf_var_at_level v : nrf (var_at_level v).
-Proof. unfold var_at_level. nrf. Qed.
-
-(** [_vector_compose]: every node it creates is a variable node or the
-    result of [ite]; safe for arbitrary replacement references *)
-Lemma tsafe_vector_compose_rec fuel : ∀ f_ ls cache, tsafe (vector_compose_rec fuel f_ ls cache).
-Proof.
-  induction fuel as [|f IH]; intros f_ ls cache; cbn [vector_compose_rec];
-    [apply tsafe_pure, pure_raise|].
-  tsafe; first [apply IH | apply tsafe_ite | apply tsafe_find_or_add_var].
-Qed.
-
-Lemma compose_rec_total s f_ j g r s' :
-  Inv s → last_len s = None →
-  compose_rec (S (S (2 * nvars s))) f_ j g ∅ s = (r, s') → safe s s'.
-Proof.
-  intros HI Hl Hrun.
-  destruct (decide (valid s f_)) as [Hf|Hf]; cycle 1.
-  { cbn [compose_rec] in Hrun.
-    rewrite decide_False in Hrun by (by apply (junk_not_terminal s)).
-    rewrite lookup_empty in Hrun.
-    rewrite (bind_err _ _ _ _ _ (getsuccZ_junk s f_ Hf)) in Hrun.
-    injection Hrun as <- <-. by apply safe_refl. }
-  destruct (decide (valid s g)) as [Hg|Hg].
-  { apply (compose_rec_safe (S (S (2 * nvars s))) s f_ j g ∅ r s' HI Hf Hg Hl
-             (cache_ok_c_empty s j) (compose_fuel_ok s f_ g) Hrun). }
-  cbn [compose_rec] in Hrun.
-  destruct (decide (absn f_ = 1%positive ∧ f_ ≠ 0%Z)) as [_|Hnt].
-  { injection Hrun as <- <-. by apply safe_refl. }
-  rewrite lookup_empty in Hrun.
-  destruct (node_cases s HI f_ Hf) as [[E El]|(t&Ht&Hn1&Hlo&_)].
-  { exfalso. apply Hnt. split; [done|apply Hf]. }
-  rewrite (bind_ok _ _ _ _ _ (getsuccZ_ok s f_ t (proj1 Hf) Ht)) in Hrun.
-  unfold is_term, assert in Hrun. rewrite bool_decide_eq_false_2 in Hrun by done.
-  cbn [negb] in Hrun. rewrite (bind_ok _ _ s tt s) in Hrun by done.
-  destruct (decide (j < t_lvl t)) as [Hji|Hji].
-  { injection Hrun as <- <-. by apply safe_refl. }
-  destruct (decide (t_lvl t = j)) as [Eij|Hij].
-  - rewrite bind_assoc in Hrun.
-    destruct (ite g (t_hi t) (t_lo t) s) as [rw s1] eqn:Ew.
-    pose proof (tsafe_ite _ _ _ _ _ _ HI Hl Ew) as Hs1.
-    destruct rw as [w|e].
-    + rewrite (bind_ok _ _ _ _ _ Ew) in Hrun. cbn [bind ret] in Hrun. by injection Hrun as <- <-.
-    + rewrite (bind_err _ _ _ _ _ Ew) in Hrun. by injection Hrun as <- <-.
-  - rewrite bind_assoc in Hrun.
-    rewrite (bind_err _ _ _ _ _ (level_of_junk s g Hg)) in Hrun.
-    injection Hrun as <- <-. by apply safe_refl.
-Qed.
-
-Definition compose_body (f_ : Z) (var_sub : list (nat * Z)) : MS Z :=
-  s <- get ;;
-  let fuel := S (S (2 * nvars s)) in
-  match var_sub with
-  | [(var, g)] =>
-      j <- level_of_var var ;;
-      r <- compose_rec fuel f_ j g ∅ ;; ret (fst r)
-  | _ =>
-      dv <- mapM (fun '(var, g) => l <- level_of_var var ;; ret (l, g)) var_sub ;;
-      r <- vector_compose_rec fuel f_ (list_to_map (reverse dv)) ∅ ;;
-      ret (fst r)
-  end.
-Lemma nrf_compose_body f_ var_sub : nrf (compose_body f_ var_sub).
-Proof.
-  unfold compose_body.
-  nrf; first [apply nrf_level_of_var | apply nrf_compose_rec | apply nrf_vector_compose_rec].
-Qed.
-Lemma nrf_compose f_ var_sub : nrf (compose f_ var_sub).
-Proof. apply nrf_try_to_reorder, nrf_compose_body. Qed.
-
-Lemma tsafe_compose f_ var_sub : tsafe (compose f_ var_sub).
-Proof.
-  apply tsafe_try_to_reorder; [apply nrf_compose_body|].
-  apply tsafe_bind_get. intros s r s' HI Hl. cbv zeta.
-  assert (Hvec : ∀ l : list (nat * Z), tsafe (
-      dv <- mapM (fun '(var, g) => l <- level_of_var var ;; ret (l, g)) l ;;
-      r <- vector_compose_rec (S (S (2 * nvars s))) f_ (list_to_map (reverse dv)) ∅ ;;
-      ret (fst r))).
-  { intros l. tsafe. apply tsafe_vector_compose_rec. }
-  destruct var_sub as [|[var g] [|xg rest]]; [by apply Hvec| |by apply Hvec].
-  intros H. destruct (level_of_var var s) as [rj s1] eqn:Ej.
-  pose proof (pure_level_of_var _ _ _ _ Ej) as ->.
-  destruct rj as [j|e].
-  - rewrite (bind_ok _ _ _ _ _ Ej) in H. apply bind_fst_state in H as [r0 H].
-    by apply (compose_rec_total s f_ j g r0 s').
-  - rewrite (bind_err _ _ _ _ _ Ej) in H. injection H as <- <-. by apply safe_refl.
-Qed.
-
-(** *** [rename] *)
-Lemma nrf_copy_bdd_rec fuel : ∀ src u lm cache, nrf (copy_bdd_rec fuel src u lm cache).
-Proof.
-  induction fuel as [|f IH]; intros src u lm cache; cbn [copy_bdd_rec];
-    [by apply nrf_raise|].
-  nrf; first [apply IH | apply nrf_ite | apply nrf_find_or_add].
-Qed.
-Lemma tsafe_copy_bdd_rec fuel : ∀ src u lm cache, tsafe (copy_bdd_rec fuel src u lm cache).
-Proof.
-  induction fuel as [|f IH]; intros src u lm cache; cbn [copy_bdd_rec];
-    [apply tsafe_pure, pure_raise|].
-  tsafe; first [apply IH | apply tsafe_ite | apply tsafe_find_or_add_var].
-Qed.
-Lemma nrf_rename_ u dvars : nrf (rename_ u dvars).
-Proof. unfold rename_. nrf; apply nrf_copy_bdd_rec. Qed.
-Lemma nrf_rename u dvars : nrf (rename u dvars).
-Proof. apply nrf_try_to_reorder, nrf_rename_. Qed.
-Lemma tsafe_rename u dvars : tsafe (rename u dvars).
-Proof.
-  apply tsafe_try_to_reorder; [apply nrf_rename_|].
-  unfold rename_. tsafe; apply tsafe_copy_bdd_rec.
-Qed.
-
-(** *** [support], [is_essential] (read-only) and [apply], [cube], [let] *)
-Lemma nrf_support_rec fuel : ∀ u acc, nrf (support_rec fuel u acc).
-Proof.
-  induction fuel as [|f IH]; intros u acc; cbn [support_rec]; [by apply nrf_raise|].
-  nrf; apply IH.
-Qed.
-Lemma nrf_support u : nrf (support u).
-Proof.
-  unfold support, support_levels. nrf; [apply nrf_support_rec|apply nrf_var_at_level].
-Qed.
-Lemma nrf_is_essential_rec fuel : ∀ u i, nrf (is_essential_rec fuel u i).
-Proof.
-  induction fuel as [|f IH]; intros u i; cbn [is_essential_rec]; [by apply nrf_raise|].
-  nrf; apply IH.
-Qed.
-Lemma nrf_is_essential u v : nrf (is_essential u v).
-Proof. unfold is_essential. nrf. apply nrf_is_essential_rec. Qed.
-
-Lemma nrf_apply_with tbl op u v w : nrf (apply_with tbl op u v w).
-Proof.
-  unfold apply_with. nrf; first [apply nrf_ite | apply nrf_support | apply nrf_quantify].
-Qed.
-Lemma tsafe_apply_with tbl op u v w : tsafe (apply_with tbl op u v w).
-Proof.
-  unfold apply_with.
-  tsafe; first [apply tsafe_ite | apply tsafe_pure, pure_support | apply tsafe_quantify].
-Qed.
-Lemma nrf_apply op u v w : nrf (apply op u v w).
-Proof. apply nrf_apply_with. Qed.
-Lemma tsafe_apply op u v w : tsafe (apply op u v w).
-Proof. apply tsafe_apply_with. Qed.
-
-Lemma nrf_cube dvars : nrf (cube dvars).
-Proof. unfold cube. apply nrf_try_to_reorder. nrf; [apply nrf_var|apply nrf_apply]. Qed.
-Lemma tsafe_cube dvars : tsafe (cube dvars).
-Proof.
-  unfold cube. apply tsafe_try_to_reorder.
-  - nrf; [apply nrf_var|apply nrf_apply].
-  - tsafe; [apply tsafe_var|apply tsafe_apply].
-Qed.
-
-Lemma nrf_let d u : nrf (let_ d u).
-Proof.
-  unfold let_. destruct d as [[|]|[|]|[|]]; try apply nrf_ret;
-    [apply nrf_cofactor|apply nrf_compose|apply nrf_rename].
-Qed.
-Lemma tsafe_let d u : tsafe (let_ d u).
-Proof.
-  unfold let_. destruct d as [[|]|[|]|[|]]; try apply tsafe_pure, pure_ret;
-    [apply tsafe_cofactor|apply tsafe_compose|apply tsafe_rename].
-Qed.
-
-(** the public statements: any arguments, any outcome *)
-Definition total_post {A} (s : st) (r : res A) (s' : st) : Prop :=
-  Inv s' ∧ extends s s' ∧ frame s s' ∧ (∀ L, Counts s L → Counts s' L) ∧
-  r ≠ Err ENeedsReordering.
-
-Lemma total_intro {A} (m : MS A) s r s' :
-  nrf m → tsafe m → Inv s → last_len s = None → m s = (r, s') → total_post s r s'.
-Proof.
-  intros Hn Ht HI Hl H. destruct (Ht s r s' HI Hl H) as (?&?&?&?).
-  destruct (Hn s r s' Hl H) as [_ ?]. by split_and!.
-Qed.
-
-Theorem apply_total s op u v w r s' :
-  Inv s → last_len s = None → apply op u v w s = (r, s') → total_post s r s'.
-Proof. apply total_intro; [apply nrf_apply|apply tsafe_apply]. Qed.
-Theorem quantify_total s u bn qvars fa r s' :
-  Inv s → last_len s = None → quantify u bn qvars fa s = (r, s') → total_post s r s'.
-Proof. apply total_intro; [apply nrf_quantify|apply tsafe_quantify]. Qed.
-Theorem cofactor_total s u bn values r s' :
-  Inv s → last_len s = None → cofactor u bn values s = (r, s') → total_post s r s'.
-Proof. apply total_intro; [apply nrf_cofactor|apply tsafe_cofactor]. Qed.
-Theorem compose_total s f_ var_sub r s' :
-  Inv s → last_len s = None → compose f_ var_sub s = (r, s') → total_post s r s'.
-Proof. apply total_intro; [apply nrf_compose|apply tsafe_compose]. Qed.
-Theorem rename_total s u dvars r s' :
-  Inv s → last_len s = None → rename u dvars s = (r, s') → total_post s r s'.
-Proof. apply total_intro; [apply nrf_rename|apply tsafe_rename]. Qed.
-Theorem cube_total s dvars r s' :
-  Inv s → last_len s = None → cube dvars s = (r, s') → total_post s r s'.
-Proof. apply total_intro; [apply nrf_cube|apply tsafe_cube]. Qed.
-Theorem let_total s d u r s' :
-  Inv s → last_len s = None → let_ d u s = (r, s') → total_post s r s'.
-Proof. apply total_intro; [apply nrf_let|apply tsafe_let]. Qed.
-Theorem support_total s u r s' : support u s = (r, s') → s' = s.
-Proof. apply pure_support. Qed.
-Theorem is_essential_total s u v r s' : is_essential u v s = (r, s') → s' = s.
-Proof. apply pure_is_essential. Qed.
-
-(** the rejected calls of [apply] leave the state untouched *)
-Theorem apply_rejected s op u v w :
-  arity_ok op v w = false ∨ mem u s = false ∨
-  (∃ v', v = Some v' ∧ mem v' s = false) ∨ (∃ w', w = Some w' ∧ mem w' s = false) ∨
-  find_template apply_table op = None →
-  apply op u v w s = (Err EValue, s).
-Proof.
-  unfold apply, apply_with. intros H.
-  destruct (arity_ok op v w) eqn:Ea; [|done]. cbn [ensure bind ret get].
-  destruct (mem u s) eqn:Eu; [|done]. cbn [ensure bind ret].
-  destruct H as [?|[?|H]]; [done..|].
-  destruct (match v with Some v0 => mem v0 s | None => true end) eqn:Ev; [|done].
-  cbn [ensure bind ret].
-  destruct (match w with Some w0 => mem w0 s | None => true end) eqn:Ew; [|done].
-  cbn [ensure bind ret].
-  destruct H as [(v'&->&Hv)|[(w'&->&Hw)|H]]; [congruence..|]. by rewrite H.
-Qed.
-
-(** ** 8. Reference counters *)
-Lemma getref_junk s u : Inv s → ¬ valid s u →
-  (if decide (u = 0%Z) then raise EKey else getref (absn u)) s = (Err EKey, s).
-Proof.
-  intros HI Hn. case_decide; [done|]. unfold getref.
-  destruct (refc s !! absn u) eqn:E; [|done]. exfalso. apply Hn. split; [done|].
-  apply elem_of_dom. rewrite <- (inv_ref _ HI). apply elem_of_dom. by eexists.
-Qed.
-
-Lemma Inv_unbump s u : Inv s → Inv (unbump u s).
-Proof. apply Inv_same. repeat split. cbn. apply dom_alter_L. Qed.
-
-Theorem incref_total s u r s' :
-  Inv s → incref u s = (r, s') →
-  Inv s' ∧ extends s s' ∧ frame s s' ∧
-  (valid s u → r = Ok tt ∧ ∀ L, Counts s L → Counts s' (ledger_inc L (absn u))) ∧
-  (¬ valid s u → r = Err EKey ∧ s' = s).
-Proof.
-  intros HI H. destruct (decide (valid s u)) as [Hu|Hu].
-  - rewrite (incref_ok s u HI Hu) in H. injection H as <- <-.
-    split; [by apply Inv_bump|]. split; [done|]. split; [done|]. split; [|done].
-    intros _. split; [done|]. intros L HL. by apply Counts_bump.
-  - unfold incref in H. rewrite (bind_err _ _ _ _ _ (getref_junk s u HI Hu)) in H.
-    injection H as <- <-. split; [done|]. split; [reflexivity|]. split; [reflexivity|].
-    split; [done|]. done.
-Qed.
-
-(** [decref] of a node the caller holds ([0 < L]); without an external
-    reference the call still succeeds, see [decref_counts_zero] *)
-Theorem decref_total s u r s' :
-  Inv s → decref u s = (r, s') →
-  Inv s' ∧ extends s s' ∧ frame s s' ∧
-  (valid s u → r = Ok tt ∧
-     ∀ L, Counts s L → 0 < L (absn u) → Counts s' (ledger_dec L (absn u))) ∧
-  (¬ valid s u → r = Err EKey ∧ s' = s).
-Proof.
-  intros HI H. destruct (decide (valid s u)) as [Hu|Hu].
-  - assert (Hr : is_Some (refc s !! absn u)).
-    { apply elem_of_dom. rewrite (inv_ref _ HI). apply elem_of_dom, Hu. }
-    rewrite (decref_run s u (proj1 Hu) Hr) in H. injection H as <- <-.
-    split; [by apply Inv_unbump|]. split; [done|]. split; [done|]. split; [|done].
-    intros _. split; [done|]. intros L HL HLu. by apply Counts_unbump.
-  - unfold decref in H. rewrite (bind_err _ _ _ _ _ (getref_junk s u HI Hu)) in H.
-    injection H as <- <-. split; [done|]. split; [reflexivity|]. split; [reflexivity|].
-    split; [done|]. done.
-Qed.
-
-Theorem ref_total s u r s' :
-  Inv s → ref u s = (r, s') → s' = s ∧ (¬ valid s u → r = Err EKey).
-Proof.
-  intros HI H. split; [by apply (pure_ref u s r s')|]. intros Hu.
-  unfold ref in H. rewrite (getref_junk s u HI Hu) in H. by injection H as <- _.
-Qed.
-
-(** ** 9. [configure] *)
-Theorem configure_total s b r s' :
-  Inv s → configure b s = (r, s') →
-  Inv s' ∧ extends s s' ∧ (∀ L, Counts s L → Counts s' L) ∧
-  r = Ok (bool_decide (is_Some (last_len s))) ∧
-  last_len s' = match b with
-                | None => last_len s
-                | Some true => Some (Nat.max REORDER_STARTS (len s))
-                | Some false => None
-                end.
-Proof.
-  intros HI H. unfold configure in H. cbn [bind get] in H.
-  destruct b as [[|]|]; cbn [bind modify ret] in H; injection H as <- <-;
-    (split; [by (apply (Inv_same s); [by repeat split|])|]);
-    (split; [done|]); (split; [intros L; by apply Counts_same|]); done.
-Qed.
-
-(** ** 10. [collect_garbage] *)
-Lemma gc_scan_total s (l : list Z) : ∀ (acc : gset positive) r s1,
-  foldM (fun (acc : gset positive) (u : Z) =>
-            r <- ref u ;;
-            if decide (r = 0) then ret (acc ∪ {[absn u]}) else ret acc) acc l s = (r, s1) →
-  s1 = s ∧ match r with
-           | Ok _ => ∀ u, u ∈ l → u ≠ 0%Z ∧ is_Some (refc s !! absn u)
-           | Err e => e = EKey
-           end.
-Proof.
-  induction l as [|u l IH]; intros acc r s1; cbn [foldM].
-  { intros [= <- <-]. split; [done|]. intros u Hu. by apply elem_of_nil in Hu. }
-  unfold bind at 1. unfold bind at 1. unfold ref.
-  destruct (decide (u = 0%Z)) as [->|Hu]; [by intros [= <- <-]|].
-  unfold getref. destruct (refc s !! absn u) as [c|] eqn:Ec; [|by intros [= <- <-]].
-  assert (Hstep : ∀ X : gset positive,
-    (if decide (c = 0) then ret (acc ∪ {[absn u]}) else ret acc) s = (Ok X, s) →
-    foldM (fun (acc : gset positive) (u : Z) =>
-            r <- (if decide (u = 0%Z) then raise EKey else
-                  fun s => match refc s !! absn u with
-                           | Some t => (Ok t, s) | None => (Err EKey, s) end) ;;
-            if decide (r = 0) then ret (acc ∪ {[absn u]}) else ret acc) X l s = (r, s1) →
-    s1 = s ∧ match r with
-             | Ok _ => ∀ u0, u0 ∈ u :: l → u0 ≠ 0%Z ∧ is_Some (refc s !! absn u0)
-             | Err e => e = EKey
-             end).
-  { intros X _ HX. apply IH in HX as [-> HX]. split; [done|].
-    destruct r as [Y|e]; [|done]. intros u0 Hu0.
-    apply elem_of_cons in Hu0 as [->|Hu0]; [|by apply HX]. split; [done|by eexists]. }
-  case_decide; by apply Hstep.
-Qed.
-
-Theorem collect_garbage_total roots s L r s' :
-  Inv s → Counts s L → collect_garbage roots s = (r, s') →
-  Inv s' ∧ Counts s' L ∧ vars s' = vars s ∧ lvl2var s' = lvl2var s ∧ frame s s' ∧
-  succ s' ⊆ succ s ∧
-  (r = Ok tt ∧ ite_tab s' = ∅ ∧
-     (∀ n, n = 1%positive ∨ reach (succ s) (fun k => 0 < L k) n → n ∈ dom (succ s'))
-   ∨ r = Err EKey ∧ s' = s ∧ ¬ roots_ok s roots).
-Proof.
-  intros HI HL H.
-  assert (Hok : roots_ok s roots →
-    Inv s' ∧ Counts s' L ∧ vars s' = vars s ∧ lvl2var s' = lvl2var s ∧ frame s s' ∧
-    succ s' ⊆ succ s ∧
-    (r = Ok tt ∧ ite_tab s' = ∅ ∧
-       (∀ n, n = 1%positive ∨ reach (succ s) (fun k => 0 < L k) n → n ∈ dom (succ s'))
-     ∨ r = Err EKey ∧ s' = s ∧ ¬ roots_ok s roots)).
-  { intros Hr. destruct (gc_safe roots s L r s' HI HL Hr H) as (?&?&?&?&?&?&?&?&?).
-    split_and!; try done. left. by split_and!. }
-  destruct roots as [l|]; [|by apply Hok].
-  pose proof H as H0. unfold collect_garbage in H. cbn [bind get] in H.
-  unfold bind at 1 in H.
-  destruct (foldM _ ∅ l s) as [[X|e] s1] eqn:E;
-    apply gc_scan_total in E as [-> E].
-  - apply Hok. intros u Hu. destruct (E u Hu) as [Hu0 Hs]. split; [done|].
-    apply elem_of_dom. rewrite <- (inv_ref _ HI). by apply elem_of_dom.
-  - subst e. injection H as <- <-.
-    split; [done|split; [done|split; [done|split; [done|split; [reflexivity|split; [done|]]]]]].
-    right. split; [done|split; [done|]].
-    intros Hr. by destruct (gc_safe (Some l) s L _ _ HI HL Hr H0) as (?&_).
-Qed.
-
-(** ** 11. [add_var]: a new variable at the bottom.
-    The terminal moves one level down; nothing else changes. *)
-Lemma den_raise_term s s' a : Inv s →
-  succ s' = <[1%positive := tterm (nvars s')]> (succ s) →
-  ∀ f1 f2 u, valid s u → need s u ≤ f1 → need s u ≤ f2 →
-  den f1 s' u a = den f2 s u a.
-Proof.
-  intros HI Es. induction f1 as [|f1 IH]; intros f2 u Hv H1 H2; [unfold need in *; lia|].
-  destruct f2 as [|f2]; [unfold need in *; lia|].
-  destruct (node_cases s HI u Hv) as [[E _]|(t&Ht&Hn1&Hlo&Hl&?&Hvl&Hvh&?&Hll&Hlh&?)].
-  - rewrite (den_term s HI) by done. cbn [den]. rewrite Es, E, lookup_insert. cbn.
-    case_decide; case_bool_decide; try lia; done.
-  - rewrite (den_step s _ _ _ _ Ht Hlo). cbn [den].
-    rewrite Es, lookup_insert_ne by done. rewrite Ht.
-    destruct (decide (t_lo t = 0%Z)) as [|_]; [done|].
-    assert (Hhi : den f1 s' (t_hi t) a = den f2 s (t_hi t) a)
-      by (apply IH; [done|unfold need in *; lia..]).
-    assert (Hlow : den f1 s' (t_lo t) a = den f2 s (t_lo t) a)
-      by (apply IH; [done|unfold need in *; lia..]).
-    rewrite Hhi, Hlow.
-    case_decide; case_bool_decide; try lia; by destruct (if a _ then _ else _).
-Qed.
-
-Lemma D_raise_term s s' u a : Inv s →
-  succ s' = <[1%positive := tterm (nvars s')]> (succ s) → nvars s ≤ nvars s' →
-  valid s u → D s' u a = D s u a.
-Proof.
-  intros HI Es Hn Hu. unfold D. apply den_raise_term; try done; unfold need; lia.
-Qed.
-
-Lemma Inv_add_var_fields s s' var : Inv s → vars s !! var = None →
-  succ s' = <[1%positive := tterm (S (nvars s))]> (succ s) →
-  pred s' = <[tterm (S (nvars s)) := 1%positive]> (delete (tterm (nvars s)) (pred s)) →
-  refc s' = refc s → min_free s' = min_free s → ite_tab s' = ite_tab s →
-  vars s' = <[var := nvars s]> (vars s) → lvl2var s' = <[nvars s := var]> (lvl2var s) →
-  Inv s' ∧ nvars s' = S (nvars s) ∧
-  (∀ L, Counts s L → Counts s' L) ∧
-  ∀ u, valid s u → valid s' u ∧ (∀ a, D s' u a = D s u a) ∧
-                  ∀ ρ, denv s' u ρ = denv s u ρ.
-Proof.
-  intros HI Hvar Es Ep Er Em Ei Ev El.
-  set (n := nvars s) in *.
-  assert (Hn' : nvars s' = S n).
-  { unfold nvars at 1. rewrite Ev, map_size_insert_None by done. done. }
-  assert (Es' : succ s' = <[1%positive := tterm (nvars s')]> (succ s)) by (by rewrite Hn').
-  assert (Hl2 : lvl2var s !! n = None).
-  { apply eq_None_not_Some. intros Hs. apply (inv_lvls _ HI) in Hs. subst n. lia. }
-  assert (Hdom : ∀ k, is_Some (succ s' !! k) ↔ is_Some (succ s !! k)).
-  { intros k. rewrite Es. destruct (decide (k = 1%positive)) as [->|].
-    - rewrite lookup_insert, (inv_term _ HI). split; by eexists.
-    - by rewrite lookup_insert_ne. }
-  assert (Hval : ∀ x, valid s' x ↔ valid s x) by (intros x; unfold valid; by rewrite Hdom).
-  assert (Hlvl : ∀ x, valid s x → lvl_of s x ≤ lvl_of s' x ∧
-                      (absn x ≠ 1%positive → lvl_of s' x = lvl_of s x) ∧
-                      lvl_of s' x ≤ S n).
-  { intros x Hx. destruct (decide (absn x = 1%positive)) as [E|E].
-    - assert (lvl_of s' x = S n) as -> by (unfold lvl_of; by rewrite Es, E, lookup_insert).
-      rewrite (lvl_term s HI) by done. fold n. split_and!; [lia|done|lia].
-    - assert (lvl_of s' x = lvl_of s x) as ->
-        by (unfold lvl_of; by rewrite Es, lookup_insert_ne).
-      pose proof (lvl_le s HI x Hx) as Hle. fold n in Hle. split_and!; [lia|done|lia]. }
-  assert (HD : ∀ u a, valid s u → D s' u a = D s u a).
-  { intros u a Hu. apply D_raise_term; try done. fold n. lia. }
-  assert (Hnoterm : ∀ k t, succ s !! k = Some t → k ≠ 1%positive → t_lo t ≠ 0%Z).
-  { intros k t Hk Hk1. by destruct (inv_node _ HI _ _ Hk Hk1) as (_&[? _]&_). }
-  split; [|split; [done|split]].
-  - split.
-    + by rewrite Es, Hn', lookup_insert.
-    + intros k t Hk Hk1. rewrite Es, lookup_insert_ne in Hk by done.
-      destruct (inv_node _ HI _ _ Hk Hk1) as (?&Hvl&?&Hvh&?&?&?).
-      destruct (Hlvl _ Hvl) as (?&_), (Hlvl _ Hvh) as (?&_).
-      rewrite Hn', !Hval. fold n in H. split_and!; try done; lia.
-    + intros k t. rewrite Es, Ep.
-      destruct (decide (k = 1%positive)) as [->|Hk1].
-      * rewrite lookup_insert. split.
-        -- intros [= <-]. by rewrite lookup_insert.
-        -- intros Hp. destruct (decide (t = tterm (S n))) as [->|Hne]; [done|].
-           rewrite lookup_insert_ne in Hp by done.
-           apply lookup_delete_Some in Hp as [Hne' Hp].
-           apply (inv_pred _ HI) in Hp. rewrite (inv_term _ HI) in Hp.
-           injection Hp as Hp. by destruct Hne'.
-      * rewrite lookup_insert_ne by done. split.
-        -- intros Hk. pose proof (Hnoterm _ _ Hk Hk1) as Hlo.
-           rewrite lookup_insert_ne by (intros <-; done).
-           rewrite lookup_delete_ne by (intros <-; done). by apply (inv_pred _ HI).
-        -- intros Hp. destruct (decide (t = tterm (S n))) as [->|Hne].
-           { rewrite lookup_insert in Hp. congruence. }
-           rewrite lookup_insert_ne in Hp by done.
-           apply lookup_delete_Some in Hp as [_ Hp]. by apply (inv_pred _ HI).
-    + rewrite Em. destruct (inv_free _ HI) as [Hf Hb]. split.
-      * apply eq_None_not_Some. rewrite Hdom. by rewrite Hf.
-      * intros k Hk. apply Hdom. by apply Hb.
-    + rewrite Er, (inv_ref _ HI). apply stdpp.sets.set_eq. intros k.
-      rewrite !elem_of_dom. by rewrite Hdom.
-    + intros g u v w Hi. rewrite Ei in Hi.
-      destruct (inv_ite _ HI _ _ _ _ Hi) as (Hg&Hu&Hv&Hw&Hmin&HDw).
-      rewrite !Hval. split_and!; try done.
-      * destruct (Hlvl _ Hg) as (Hg1&Hg2&Hg3), (Hlvl _ Hu) as (Hu1&Hu2&Hu3),
-          (Hlvl _ Hv) as (Hv1&Hv2&Hv3), (Hlvl _ Hw) as (Hw1&Hw2&Hw3).
-        destruct (decide (absn w = 1%positive)) as [Ew|Ew].
-        { assert (lvl_of s' w = S n) as -> by (unfold lvl_of; by rewrite Es, Ew, lookup_insert).
-          lia. }
-        rewrite (Hw2 Ew).
-        pose proof (lvl_le s HI _ Hg) as Lg. pose proof (lvl_le s HI _ Hu) as Lu.
-        pose proof (lvl_le s HI _ Hv) as Lv. fold n in Lg, Lu, Lv.
-        destruct (node_cases s HI w Hw) as [[? _]|(tw&_&_&_&Hlw&Hlwn&_)]; [done|].
-        fold n in Hlwn. rewrite <- Hlw in Hlwn.
-        assert (Hterm : ∀ x, valid s x → lvl_of s x < n → lvl_of s' x = lvl_of s x).
-        { intros x Hx Hlt. apply Hlvl; [done|]. intros E.
-          rewrite (lvl_term s HI x E) in Hlt. fold n in Hlt. lia. }
-        destruct (Nat.min_spec (lvl_of s g `min` lvl_of s u) (lvl_of s v)) as [[? Em']|[? Em']];
-          destruct (Nat.min_spec (lvl_of s g) (lvl_of s u)) as [[? Em'']|[? Em'']];
-          rewrite ?Em', ?Em'' in Hmin.
-        -- rewrite <- (Hterm g) in Hmin by first [done|lia]. lia.
-        -- rewrite <- (Hterm u) in Hmin by first [done|lia]. lia.
-        -- rewrite <- (Hterm v) in Hmin by first [done|lia]. lia.
-        -- rewrite <- (Hterm v) in Hmin by first [done|lia]. lia.
-      * intros a. rewrite !HD by done. apply HDw.
-    + intros v l. rewrite Ev, El.
-      destruct (decide (v = var)) as [->|Hv]; destruct (decide (l = n)) as [->|Hl].
-      * by rewrite !lookup_insert.
-      * rewrite lookup_insert, lookup_insert_ne by done. split; [congruence|].
-        intros Hx. apply (inv_vars _ HI) in Hx. congruence.
-      * rewrite lookup_insert_ne, lookup_insert by done. split; [|congruence].
-        intros Hx. apply (inv_vars _ HI) in Hx. congruence.
-      * rewrite !lookup_insert_ne by done. apply (inv_vars _ HI).
-    + intros l. rewrite Hn', El. destruct (decide (l = n)) as [->|Hl].
-      * rewrite lookup_insert. split; [by eexists|lia].
-      * rewrite lookup_insert_ne by done. rewrite <- (inv_lvls _ HI). fold n. lia.
-  - intros L [H1 H2]. split.
-    + intros k Hk. apply elem_of_dom in Hk. apply Hdom in Hk. apply elem_of_dom in Hk.
-      rewrite Er, (H1 k Hk). do 2 f_equal. rewrite Es.
-      pose proof (indeg_update (succ s) 1%positive _ (tterm (S n)) k (inv_term _ HI)) as Hup.
-      unfold edges_to, tterm in Hup. cbn in Hup.
-      rewrite !decide_False in Hup by (intros [? _]; done). unfold tterm. lia.
-    + intros k Hk. apply H2. intros Hk'. apply Hk.
-      apply elem_of_dom. apply Hdom. by apply elem_of_dom.
-  - intros u Hu. split; [by apply Hval|]. split; [intros a; by apply HD|].
-    intros ρ. unfold denv. rewrite HD by done. apply (D_indep_lt s HI); [done|].
-    intros j Hj. fold n in Hj. rewrite El, lookup_insert_ne by lia. done.
-Qed.
-
-(** [add_var] with any name and any level.  The guard excludes the one
-    accepted call that breaks the invariant: a NEW name at an explicit level
-    beyond the next free one (see [add_var_gap_refuted] in [Vars]). *)
-Theorem add_var_total s var level r s' :
-  Inv s → add_var var level s = (r, s') →
-  (∀ l, level = Some l → vars s !! var = None → l ≤ nvars s) →
-  Inv s' ∧ frame s s' ∧ (∀ L, Counts s L → Counts s' L) ∧
-  (∀ u, valid s u → valid s' u ∧ (∀ a, D s' u a = D s u a) ∧
-                    ∀ ρ, denv s' u ρ = denv s u ρ) ∧
-  match r with
-  | Ok l => (vars s !! var = Some l ∧ s' = s) ∨
-            (vars s !! var = None ∧ l = nvars s ∧ nvars s' = S (nvars s) ∧
-             vars s' = <[var := l]> (vars s) ∧ lvl2var s' = <[l := var]> (lvl2var s) ∧
-             succ s' = <[1%positive := tterm (S (nvars s))]> (succ s))
-  | Err e => e = EValue ∧ s' = s
-  end.
-Proof.
-  intros HI H Hg.
-  assert (Hsame : ∀ r0 : res nat, match r0 with
-            | Ok l => vars s !! var = Some l | Err e => e = EValue end →
-    Inv s ∧ frame s s ∧ (∀ L, Counts s L → Counts s L) ∧
-    (∀ u, valid s u → valid s u ∧ (∀ a, D s u a = D s u a) ∧
-                      ∀ ρ, denv s u ρ = denv s u ρ) ∧
-    match r0 with
-    | Ok l => (vars s !! var = Some l ∧ s = s) ∨
-              (vars s !! var = None ∧ l = nvars s ∧ nvars s = S (nvars s) ∧
-               vars s = <[var := l]> (vars s) ∧ lvl2var s = <[l := var]> (lvl2var s) ∧
-               succ s = <[1%positive := tterm (S (nvars s))]> (succ s))
-    | Err e => e = EValue ∧ s = s
-    end).
-  { intros r0 Hr0. split; [done|split; [reflexivity|split; [done|split; [done|]]]].
-    destruct r0; [by left|done]. }
-  unfold add_var in H. cbn [bind get] in H.
-  destruct (decide (is_Some (vars s !! var))) as [[vl Hvl]|Hnew].
-  { unfold check_var in H. cbn [bind get] in H. rewrite Hvl in H.
-    destruct level as [l|]; [case_decide|]; injection H as <- <-;
-      [by apply (Hsame (Ok vl))|by apply (Hsame (Err EValue))|by apply (Hsame (Ok vl))]. }
-  apply eq_None_not_Some in Hnew.
-  unfold next_free_level in H. rewrite bind_assoc in H. cbn [bind get] in H.
-  set (l := match level with Some l => l | None => nvars s end) in *.
-  destruct (lvl2var s !! l) as [x|] eqn:El2.
-  { cbn [bind raise] in H. injection H as <- <-. by apply (Hsame (Err EValue)). }
-  assert (Hl : l = nvars s).
-  { assert (l ≤ nvars s) by (subst l; destruct level; [by apply Hg|done]).
-    destruct (decide (l < nvars s)) as [Hlt|]; [|lia].
-    apply (inv_lvls _ HI) in Hlt as [? ?]. congruence. }
-  clear Hsame Hg. clearbody l. subst l.
-  cbn [bind ret modify get init_terminal] in H. injection H as <- <-.
-  match goal with |- context [Inv ?st] => set (s' := st) end.
-  assert (Hn2 : size (<[var := nvars s]> (vars s)) = S (nvars s))
-    by (by rewrite map_size_insert_None).
-  destruct (Inv_add_var_fields s s' var HI Hnew) as (HI'&Hn'&HC&Hden).
-  - subst s'. cbn. by rewrite Hn2.
-  - subst s'. cbn. rewrite Hn2, (inv_term _ HI). done.
-  - subst s'. cbn. assert (is_Some (refc s !! 1%positive)) as [c ->]; [|done].
-    apply elem_of_dom. rewrite (inv_ref _ HI). apply elem_of_dom.
-    rewrite (inv_term _ HI). by eexists.
-  - done.
-  - done.
-  - done.
-  - done.
-  - split; [done|split; [by repeat split|split; [done|split; [done|]]]].
-    right. split_and!; try done.
-    subst s'. cbn. by rewrite Hn2.
-Qed.
-
-Lemma nrf_add_var var level : nrf (add_var var level).
-Proof.
-  unfold add_var, check_var, next_free_level, init_terminal. nrf.
-Qed.
-
-(** [declare]: new names at the bottom, one after the other; never fails *)
-Theorem declare_total s vs r s' :
-  Inv s → declare vs s = (r, s') →
-  r = Ok tt ∧ Inv s' ∧ frame s s' ∧ (∀ L, Counts s L → Counts s' L) ∧
-  ∀ u, valid s u → valid s' u ∧ (∀ a, D s' u a = D s u a) ∧
-                   ∀ ρ, denv s' u ρ = denv s u ρ.
-Proof.
-  unfold declare. revert s. induction vs as [|v vs IH]; intros s HI; cbn [forM].
-  { intros [= <- <-]. split; [done|split; [done|split; [reflexivity|done]]]. }
-  unfold bind at 1. unfold bind at 1.
-  destruct (add_var v None s) as [ra s1] eqn:Ea.
-  destruct (add_var_total s v None ra s1 HI Ea ltac:(done)) as (HI1&Hf1&HC1&Hd1&Hr).
-  destruct ra as [l|e]; cycle 1.
-  { exfalso. destruct Hr as [_ ->]. revert Ea. unfold add_var. cbn [bind get].
-    case_decide as Hex.
-    - destruct Hex as [vl Hvl]. unfold check_var. cbn [bind get]. by rewrite Hvl.
-    - unfold next_free_level. rewrite bind_assoc. cbn [bind get].
-      destruct (lvl2var s !! nvars s) eqn:E;
-        [|cbn [bind get ret modify init_terminal]; done].
-      assert (nvars s < nvars s); [|lia]. apply (inv_lvls _ HI). by eexists. }
-  cbn [ret]. intros H. destruct (IH s1 HI1 H) as (->&HI'&Hf'&HC'&Hd').
-  split; [done|split; [done|split; [by etrans|split]]].
-  - intros L HL. by apply HC', HC1.
-  - intros u Hu. destruct (Hd1 u Hu) as (Hu1&HD1&Hρ1). destruct (Hd' u Hu1) as (Hu2&HD2&Hρ2).
-    split; [done|split].
-    + intros a. by rewrite HD2.
-    + intros ρ. by rewrite Hρ2.
-Qed.
-
-(** ** 12. Construction: [BDD()] and [BDD(levels)] *)
-Lemma init_fields :
-  succ init = {[1%positive := tterm 0]} ∧ pred init = {[tterm 0 := 1%positive]} ∧
-  refc init = {[1%positive := 1]} ∧ min_free init = 2%positive ∧ ite_tab init = ∅ ∧
-  vars init = ∅ ∧ lvl2var init = ∅ ∧ last_len init = None ∧ rctx init = false.
-Proof.
-  unfold init, init_terminal. cbn. rewrite delete_empty, lookup_empty. by split_and!.
-Qed.
-
-(** a manager that only holds the terminal (no invariant on the levels yet:
-    [BDD(levels)] declares the levels in the dict's order) *)
-Definition fresh (s : st) : Prop :=
-  succ s = {[1%positive := tterm (nvars s)]} ∧
-  pred s = {[tterm (nvars s) := 1%positive]} ∧
-  refc s = {[1%positive := 1]} ∧ min_free s = 2%positive ∧ ite_tab s = ∅ ∧
-  (∀ v l, vars s !! v = Some l ↔ lvl2var s !! l = Some v) ∧
-  size (lvl2var s) = nvars s.
-
-Lemma fresh_init : fresh init.
-Proof.
-  destruct init_fields as (?&?&?&?&?&Ev&El&_). unfold fresh.
-  change (nvars init) with 0. rewrite Ev, El.
-  split_and!; try done.
-Qed.
-
-Lemma fresh_Inv s : fresh s → (∀ l, l < nvars s ↔ is_Some (lvl2var s !! l)) → Inv s.
-Proof.
-  intros (Es&Ep&Er&Em&Ei&Hb&_) Hl. split.
-  - by rewrite Es, lookup_singleton.
-  - intros n t Hn Hn1. rewrite Es in Hn. apply lookup_singleton_Some in Hn as [<- _]. done.
-  - intros n t. rewrite Es, Ep, !lookup_singleton_Some. naive_solver.
-  - rewrite Em, Es. split; [done|]. intros k Hk.
-    assert (k = 1%positive) as -> by lia. rewrite lookup_singleton. by eexists.
-  - by rewrite Er, Es, !dom_singleton_L.
-  - intros g u v w Hi. by rewrite Ei, lookup_empty in Hi.
-  - done.
-  - done.
-Qed.
-
-Lemma Inv_init : Inv init.
-Proof.
-  apply fresh_Inv; [apply fresh_init|]. intros l. change (nvars init) with 0.
-  change (lvl2var init) with (∅ : gmap nat nat). rewrite lookup_empty.
-  split; [lia|by intros [? ?]].
-Qed.
-
-Lemma Counts_init : Counts init (fun n => if decide (n = 1%positive) then 1 else 0).
-Proof.
-  destruct init_fields as (Es&_&Er&_). split.
-  - intros n Hn. rewrite Es, dom_singleton_L in Hn. apply elem_of_singleton in Hn as ->.
-    rewrite Er, Es, lookup_singleton. f_equal.
-  - intros n Hn. rewrite Es, dom_singleton_L in Hn. rewrite decide_False; [done|].
-    intros ->. apply Hn. by apply elem_of_singleton.
-Qed.
-
-(** one [add_var(v, l)] of a new name at a free level, in a fresh manager *)
-Lemma fresh_add_var s v l :
-  fresh s → vars s !! v = None → lvl2var s !! l = None →
-  ∃ s', add_var v (Some l) s = (Ok l, s') ∧ fresh s' ∧ frame s s' ∧
-        vars s' = <[v := l]> (vars s) ∧ lvl2var s' = <[l := v]> (lvl2var s).
-Proof.
-  intros (Es&Ep&Er&Em&Ei&Hb&Hsz) Hv Hl.
-  unfold add_var. cbn [bind get]. rewrite decide_False by (rewrite Hv; by intros [? ?]).
-  unfold next_free_level. rewrite bind_assoc. cbn [bind get]. rewrite Hl.
-  cbn [bind ret modify get init_terminal]. eexists. split; [reflexivity|].
-  assert (Hn2 : size (<[v := l]> (vars s)) = S (nvars s))
-    by (by rewrite map_size_insert_None).
-  split; [|split; [by repeat split|done]].
-  unfold fresh, nvars. cbn. rewrite Hn2, Es, Ep, Er. fold (nvars s).
-  split; [apply insert_singleton|]. split.
-  { rewrite lookup_singleton. cbn [default]. by rewrite delete_singleton, insert_empty. }
-  split; [by rewrite lookup_singleton|].
-  split; [done|split; [done|split]].
-  - intros v' l'.
-    destruct (decide (v' = v)) as [->|Hv']; destruct (decide (l' = l)) as [->|Hl'].
-    + by rewrite !lookup_insert.
-    + rewrite lookup_insert, lookup_insert_ne by done. split; [congruence|].
-      intros Hx. apply Hb in Hx. congruence.
-    + rewrite lookup_insert_ne, lookup_insert by done. split; [|congruence].
-      intros Hx. apply Hb in Hx. congruence.
-    + rewrite !lookup_insert_ne by done. apply Hb.
-  - rewrite map_size_insert_None by done. by rewrite Hsz.
-Qed.
-
-(** [BDD(levels)] with distinct names and distinct levels (a Python dict
-    has distinct keys): the assertion on the ordering fails and the manager is
-    the empty one, or every variable is declared at its level *)
-Lemma init_levels_forM (levels : list (nat * nat)) : ∀ s,
-  fresh s → NoDup (levels.*1) → NoDup (levels.*2) →
-  (∀ v, v ∈ levels.*1 → vars s !! v = None) →
-  (∀ l, l ∈ levels.*2 → lvl2var s !! l = None) →
-  ∃ s', forM levels (fun '(v, l) => add_var v (Some l) ;;; ret tt) s = (Ok tt, s') ∧
-        fresh s' ∧ frame s s' ∧
-        vars s' = list_to_map levels ∪ vars s ∧
-        dom (lvl2var s') = list_to_set (levels.*2) ∪ dom (lvl2var s).
-Proof.
-  induction levels as [|[v l] levels IH]; intros s Hf Hn1 Hn2 Hv Hl.
-  { exists s. cbn. split; [done|split; [done|split; [reflexivity|]]].
-    split; [by rewrite (left_id_L ∅ (∪))|set_solver]. }
-  cbn [fmap list_fmap fst snd] in Hn1, Hn2, Hv, Hl.
-  apply NoDup_cons in Hn1 as [Hv1 Hn1]. apply NoDup_cons in Hn2 as [Hl1 Hn2].
-  destruct (fresh_add_var s v l Hf) as (s1&Ea&Hf1&Hfr1&Ev1&El1);
-    [apply Hv; by left|apply Hl; by left|].
-  destruct (IH s1 Hf1 Hn1 Hn2) as (s'&Er&Hf'&Hfr'&Ev'&El').
-  { intros v' Hv'. rewrite Ev1, lookup_insert_ne; [apply Hv; by right|]. by intros ->. }
-  { intros l' Hl'. rewrite El1, lookup_insert_ne; [apply Hl; by right|]. by intros ->. }
-  exists s'. cbn [forM]. rewrite bind_assoc, (bind_ok _ _ _ _ _ Ea). cbn [bind ret].
-  split; [done|split; [done|split; [by etrans|split]]].
-  - rewrite Ev', Ev1. cbn [list_to_map foldr]. cbn.
-    rewrite <- insert_union_r; [by rewrite insert_union_l|].
-    apply not_elem_of_list_to_map_1. done.
-  - rewrite El', El1, dom_insert_L. cbn [fmap list_fmap snd list_to_set foldr]. cbn. set_solver.
-Qed.
-
-Theorem init_levels_total (levels : list (nat * nat)) r s' :
-  NoDup (levels.*1) → NoDup (levels.*2) →
-  init_levels levels init = (r, s') →
-  (valid_ordering levels = false ∧ r = Err EAssert ∧ s' = init) ∨
-  (valid_ordering levels = true ∧ r = Ok tt ∧ Inv s' ∧ last_len s' = None ∧
-   rctx s' = false ∧ vars s' = list_to_map levels ∧
-   Counts s' (fun n => if decide (n = 1%positive) then 1 else 0)).
-Proof.
-  intros Hn1 Hn2. unfold init_levels.
-  destruct (valid_ordering levels) eqn:Hvo; cbn [assert bind ret raise]; cycle 1.
-  { intros [= <- <-]. by left. }
-  intros H. right.
-  destruct (init_levels_forM levels init fresh_init Hn1 Hn2) as (s1&Er&Hf&Hfr&Ev&El).
-  { intros v _. apply lookup_empty. }
-  { intros l _. apply lookup_empty. }
-  rewrite Er in H. injection H as <- <-.
-  change (vars init) with (∅ : gmap nat nat) in Ev. rewrite (right_id_L ∅ (∪)) in Ev.
-  change (lvl2var init) with (∅ : gmap nat nat) in El.
-  rewrite dom_empty_L, (right_id_L ∅ (∪)) in El.
-  apply bool_decide_eq_true in Hvo. rewrite Hvo in El.
-  assert (Hnv : nvars s1 = length levels).
-  { destruct Hf as (_&_&_&_&_&_&Hsz). rewrite <- Hsz, <- size_dom, El.
-    rewrite size_list_to_set by apply NoDup_seq. by rewrite seq_length. }
-  assert (HI : Inv s1).
-  { apply fresh_Inv; [done|]. intros l. rewrite Hnv, <- elem_of_dom, El.
-    rewrite elem_of_list_to_set, elem_of_seq. lia. }
-  destruct Hfr as (E1&E2&_).
-  split; [done|split; [done|split; [done|split; [by rewrite E1|split; [by rewrite E2|]]]]].
-  split; [done|].
-  destruct Hf as (Es&_&Er'&_). split.
-  - intros n Hn. rewrite Es, dom_singleton_L in Hn. apply elem_of_singleton in Hn as ->.
-    rewrite Er', Es, lookup_singleton. f_equal.
-  - intros n Hn. rewrite Es, dom_singleton_L in Hn. rewrite decide_False; [done|].
-    intros ->. apply Hn. by apply elem_of_singleton.
-Qed.
-
-(** ** 13. Histories over the operation alphabet of [Driver] *)
-
-(** the state predicate that every allowed history maintains *)
-Definition Good (s : st) : Prop :=
-  Inv s ∧ last_len s = None ∧ ∃ L, Counts s L.
-
-(** the sub-alphabet: everything except [find_or_add] (see
-    [find_or_add_total]), the reordering entry points, the harness setters,
-    [copy_bdd] and [image]/[preimage] *)
-Definition allowed (o : op) : bool :=
-  match o with
-  | ONew levels => bool_decide (NoDup (levels.*1) ∧ NoDup (levels.*2))
-  | OAddVar _ _ | ODeclare _ | OVar _ | OIte _ _ _ | OApply _ _ _ _
-  | OIncref _ | ODecref _ | ORef _ | OGc _
-  | OCofactor _ _ _ | OQuantify _ _ _ _ | OCompose _ _ | ORename _ _
-  | OLet _ _ | OCube _ | OSupport _ | OIsEssential _ _ => true
-  | OConfigure b => bool_decide (b ≠ Some true)
-  | _ => false
-  end.
-
-(** the two caller obligations that the code does not check:
-    - a new variable is not added at a level beyond the next free one;
-    - [decref] is only applied to a node on which the caller holds a
-      reference (the counter exceeds the in-degree). *)
-Definition caller_ok (s : st) (o : op) : Prop :=
-  match o with
-  | OAddVar v (Some l) => vars s !! v = None → l ≤ nvars s
-  | ODecref u => valid s u → indeg (succ s) (absn u) < default 0 (refc s !! absn u)
-  | _ => True
-  end.
-
-Lemma Good_safe s s' : Good s → safe s s' → Good s'.
-Proof.
-  intros (HI&Hl&L&HL) (HI'&_&(E&_)&HC). split; [done|split; [congruence|]].
-  exists L. by apply HC.
-Qed.
-Lemma Good_tape s t : Good s → Good (s <| tape := t |>).
-Proof.
-  intros (HI&Hl&L&HL). split; [|split; [done|]].
-  - apply (Inv_same s); [by repeat split|done].
-  - exists L. by apply (Counts_same s).
-Qed.
-Lemma Good_tsafe {A} (m : MS A) s r s' : tsafe m → Good s → m s = (r, s') → Good s'.
-Proof.
-  intros Ht HG H. apply (Good_safe s); [done|]. destruct HG as (HI&Hl&_).
-  by apply (Ht s r s').
-Qed.
-
-Theorem run_op_good w o s r s' :
-  allowed o = true → (∀ levels, o ≠ ONew levels → Good s ∧ caller_ok s o) →
-  run_op w o s = (r, s') → Good s'.
-Proof.
-  intros Ha Hpre H.
-  destruct o; try discriminate Ha; cbn [run_op] in H;
-    try (destruct (Hpre [] ltac:(done)) as [HG Hgd]; pose proof HG as (HI&Hl&L&HL));
-    try (apply bind_fst_state in H as [r0 H]).
-  - (* ONew *)
-    cbn [allowed] in Ha. apply bool_decide_eq_true in Ha as [Hn1 Hn2].
-    cbn [bind modify] in H.
-    destruct (init_levels_total levels r0 s' Hn1 Hn2 H)
-      as [(_&_&->)|(_&_&HI'&Hl'&_&_&HC')].
-    + split; [apply Inv_init|split; [done|]]. eexists. apply Counts_init.
-    + split; [done|split; [done|]]. by eexists.
-  - (* OAddVar *)
-    destruct (add_var_total s v l r0 s' HI H) as (HI'&(E&_)&HC&_).
-    { intros l0 -> Hv. by apply Hgd. }
-    split; [done|split; [congruence|]]. exists L. by apply HC.
-  - (* ODeclare *)
-    destruct (declare_total s vs r0 s' HI H) as (_&HI'&(E&_)&HC&_).
-    split; [done|split; [congruence|]]. exists L. by apply HC.
-  - by apply (Good_tsafe _ s r0 s' (tsafe_var v)).
-  - by apply (Good_tsafe _ s r0 s' (tsafe_ite g u v)).
-  - by apply (Good_tsafe _ s r0 s' (tsafe_apply o u v w0)).
-  - (* OIncref *)
-    destruct (incref_total s u r0 s' HI H) as (HI'&_&(E&_)&Hv&Hn).
-    destruct (decide (valid s u)) as [Hu|Hu].
-    + destruct (Hv Hu) as [_ HC]. split; [done|split; [congruence|]].
-      eexists. by apply HC.
-    + destruct (Hn Hu) as [_ ->]. done.
-  - (* ODecref *)
-    destruct (decref_total s u r0 s' HI H) as (HI'&_&(E&_)&Hv&Hn).
-    destruct (decide (valid s u)) as [Hu|Hu].
-    + destruct (Hv Hu) as [_ HC]. split; [done|split; [congruence|]].
-      eexists. apply HC; [done|]. cbn [caller_ok] in Hgd. specialize (Hgd Hu).
-      destruct HL as [H1 _]. rewrite (H1 (absn u)) in Hgd by apply elem_of_dom, Hu.
-      cbn in Hgd. lia.
-    + destruct (Hn Hu) as [_ ->]. done.
-  - (* ORef *)
-    destruct (ref_total s u r0 s' HI H) as [-> _]. done.
-  - (* OGc *)
-    destruct (collect_garbage_total roots s L r0 s' HI HL H) as (HI'&HC'&_&_&(E&_)&_).
-    split; [done|split; [congruence|]]. by exists L.
-  - (* OConfigure *)
-    cbn [allowed] in Ha. apply bool_decide_eq_true in Ha.
-    destruct (configure_total s b r0 s' HI H) as (HI'&_&HC&_&E).
-    split; [done|split]; [|exists L; by apply HC].
-    rewrite E. by destruct b as [[|]|].
-  - by apply (Good_tsafe _ s r0 s' (tsafe_cofactor u byname values)).
-  - by apply (Good_tsafe _ s r0 s' (tsafe_quantify u byname qvars fa)).
-  - by apply (Good_tsafe _ s r0 s' (tsafe_compose u sub)).
-  - by apply (Good_tsafe _ s r0 s' (tsafe_rename u d)).
-  - by apply (Good_tsafe _ s r0 s' (tsafe_let d u)).
-  - by apply (Good_tsafe _ s r0 s' (tsafe_cube d)).
-  - by rewrite (pure_support _ _ _ _ H).
-  - by rewrite (pure_is_essential _ _ _ _ _ H).
-Qed.
-
-(** one call on manager [m] of a world *)
-Theorem step_good w m o :
-  allowed o = true →
-  (∀ levels, o ≠ ONew levels → Good (world_get w m) ∧ caller_ok (world_get w m) o) →
-  Good (world_get (fst (step w m o)) m).
-Proof.
-  intros Ha Hpre. unfold step, world_get in *.
-  set (s := default empty_st (w !! m)) in *.
-  assert (Hrun : ∀ r s', run_op w o s = (r, s') → Good (s' <| tape := [] |>)).
-  { intros r s' H. apply Good_tape. by apply (run_op_good w o s r s'). }
-  destruct o; try discriminate Ha.
-  1: { destruct (run_op w _ s) as [r s'] eqn:E. cbn [fst]. Set Printing All. Show.
+From DD Require Import Total.
+Print Assumptions run_inv_partial.
+Print Assumptions run_op_err.
+Print Assumptions run_inv_from_new.
+Print Assumptions find_or_add_junk_refuted.
+Print Assumptions ite_total.
+Print Assumptions add_var_total.
